@@ -671,7 +671,7 @@ Proof.
   cbv zeta. split; [vm_compute; reflexivity|]. split; vm_compute; reflexivity.
 Qed.
 
-(* 4b. PLAN for the stability clauses.
+(* 4b. OUTLINE of the proof of the stability clauses (carried out in 4c).
    Write A_c(k) := map stxt (active_at (tbl c) k) for the list of active texts at position k, A_c(-1) := [].
    Canonical form of a value c (what `parse` produces from a rendering):
      (K1) rm_wf c, and every add text is parsable;
@@ -697,6 +697,1916 @@ Qed.
      Hence A_{parse (render c)} = A_c pointwise, parse (render c) is canonical, and by (R) it renders as c.
      Idempotence of simplify follows: drop_invalid is the identity on a table whose markers are valid. *)
 
+(* 4c. The proof. *)
+(* ---------- canonical lists of setting texts ---------- *)
+Definition eff0 (t : str) : effect := match tk t with KSet e => e | _ => BOLDNESS end.
+Definition canonL (L : list str) : Prop :=
+  NoDup (map eff0 L) /\ forall t, In t L -> parsable t = true /\ tk t = KSet (eff0 t).
+Definition dl (L : list str) : sdict := map (fun t => (eff0 t, t)) L.
+Definition mem (t : str) (L : list str) : bool := existsb (str_eqb t) L.
+
+Lemma mem_In t L : mem t L = true <-> In t L.
+Proof.
+  unfold mem. rewrite existsb_exists. split.
+  - intros (x & Hx & E). apply str_eqb_eq in E. now subst.
+  - intros H. exists t. split; auto. apply str_eqb_refl.
+Qed.
+Lemma mem_false t L : mem t L = false <-> ~ In t L.
+Proof. rewrite <- mem_In. destruct (mem t L); split; intros; try congruence; tauto. Qed.
+
+Lemma canonL_nil : canonL [].
+Proof. split; [constructor|intros t []]. Qed.
+
+Lemma canonL_tail t L : canonL (t :: L) -> canonL L.
+Proof. intros [H1 H2]. inversion H1; subst. split; auto. intros x Hx. apply H2. now right. Qed.
+
+Lemma canonL_texts_nodup L : canonL L -> NoDup L.
+Proof. intros [H _]. eapply NoDup_map_inv; eauto. Qed.
+
+Lemma canonL_eff_inj L a b : canonL L -> In a L -> In b L -> eff0 a = eff0 b -> a = b.
+Proof.
+  intros [Hnd _]. induction L as [|x L IH]; intros Ha Hb E; [destruct Ha|].
+  cbn [map] in Hnd. inversion Hnd as [|? ? Hn Hd]; subst.
+  destruct Ha as [->|Ha], Hb as [->|Hb]; auto.
+  - exfalso. apply Hn. rewrite E. now apply in_map.
+  - exfalso. apply Hn. rewrite <- E. now apply in_map.
+Qed.
+
+Lemma dl_keys L : map fst (dl L) = map eff0 L.
+Proof. unfold dl. rewrite map_map. reflexivity. Qed.
+
+Lemma dl_nodupk L : canonL L -> nodupk (dl L).
+Proof. intros [H _]. unfold nodupk. now rewrite dl_keys. Qed.
+
+Lemma dget_dl_in L t : canonL L -> In t L -> dget (dl L) (eff0 t) = Some t.
+Proof. intros Hc Hin. apply in_dget; [now apply dl_nodupk|]. unfold dl. apply in_map_iff. now exists t. Qed.
+
+Lemma dget_dl_some L e t : dget (dl L) e = Some t -> In t L /\ eff0 t = e.
+Proof. intros H. apply dget_in in H. unfold dl in H. apply in_map_iff in H as (x & E & Hx). inversion E; subst. auto. Qed.
+
+Lemma dget_dl_none L e : dget (dl L) e = None -> forall t, In t L -> eff0 t <> e.
+Proof.
+  induction L as [|x L IH]; intros H t Hin; [destruct Hin|]. cbn [dl map dget] in H.
+  destruct (effect_beq (eff0 x) e) eqn:E; [discriminate|]. destruct Hin as [->|Hin]; [|now apply IH].
+  intros E'. rewrite E', effect_beq_refl in E. discriminate.
+Qed.
+
+(* settings_to_dict of a canonical list is the list itself, keyed by effect *)
+Lemma dset_fresh {V} (d : dict V) e v : ~ In e (map fst d) -> dset d e v = d ++ [(e, v)].
+Proof.
+  induction d as [|[e' v'] r IH]; intros H; [reflexivity|]. cbn [dset app map fst In] in *.
+  destruct (effect_beq e e') eqn:E.
+  - apply effect_beq_eq in E. subst. tauto.
+  - rewrite IH by tauto. reflexivity.
+Qed.
+
+Lemma s2d_canon_gen L : forall d, NoDup (map fst d ++ map eff0 L) ->
+  (forall t, In t L -> tk t = KSet (eff0 t)) ->
+  s2d (fun x : str => x) L d = d ++ dl L.
+Proof.
+  induction L as [|t L IH]; intros d Hnd Hk; [cbn; now rewrite app_nil_r|].
+  change (s2d (fun x : str => x) (t :: L) d) with (s2d (fun x : str => x) L (s2d_step (fun x : str => x) d t)).
+  rewrite s2d_step_tk, (Hk t (or_introl eq_refl)).
+  assert (Hfresh : ~ In (eff0 t) (map fst d)).
+  { intros Hin. cbn [map] in Hnd. apply NoDup_remove_2 in Hnd. apply Hnd. apply in_or_app. now left. }
+  rewrite dset_fresh by exact Hfresh. rewrite IH.
+  - rewrite <- app_assoc. reflexivity.
+  - rewrite map_app. cbn [map fst app]. rewrite <- app_assoc. cbn [app]. cbn [map] in Hnd. exact Hnd.
+  - intros x Hx. apply Hk. now right.
+Qed.
+
+Lemma s2d_canon L : canonL L -> s2d (fun x : str => x) L [] = dl L.
+Proof. intros [H1 H2]. apply (s2d_canon_gen L []); [exact H1|]. intros t Ht. now apply H2. Qed.
+
+(* ---------- the optimiser's difference on canonical lists ---------- *)
+Definition clears (Lp Ln : list str) : list str :=
+  flat_map (fun t => match dget (dl Ln) (eff0 t) with
+                     | Some _ => []
+                     | None => match clear_code (eff0 t) with Some c => [decN c] | None => [] end end) Lp.
+Definition news (Lp Ln : list str) : list str := filter (fun t => negb (mem t Lp)) Ln.
+Definition dcodes (Lp Ln : list str) : list str := clears Lp Ln ++ news Lp Ln.
+
+Lemma flat_map_map {A B C} (f : B -> list C) (g : A -> B) l : flat_map f (map g l) = flat_map (fun x => f (g x)) l.
+Proof. induction l as [|a l IH]; [reflexivity|]. cbn [map flat_map]. now rewrite IH. Qed.
+
+Lemma flat_map_filter {A} (f : A -> list A) (p : A -> bool) l :
+  (forall x, In x l -> f x = if p x then [x] else []) -> flat_map f l = filter p l.
+Proof.
+  induction l as [|a l IH]; intros H; [reflexivity|]. cbn [flat_map filter].
+  rewrite (H a (or_introl eq_refl)), IH by (intros; apply H; now right). now destruct (p a).
+Qed.
+
+Lemma diff_codes_dl Lp Ln : canonL Lp -> canonL Ln -> diff_codes (dl Lp) (dl Ln) = dcodes Lp Ln.
+Proof.
+  intros Hp Hn. unfold diff_codes, dcodes. f_equal.
+  - unfold dl at 2. rewrite flat_map_map. reflexivity.
+  - unfold dl at 2. rewrite flat_map_map. cbn [fst snd]. apply flat_map_filter. intros t Ht.
+    destruct (dget (dl Lp) (eff0 t)) as [v|] eqn:E.
+    + destruct (dget_dl_some _ _ _ E) as [Hv Ev]. destruct (str_eqb v t) eqn:Es.
+      * apply str_eqb_eq in Es. subst v. assert (M : mem t Lp = true) by now apply mem_In. now rewrite M.
+      * assert (M : mem t Lp = false).
+        { apply mem_false. intros Hin. rewrite (dget_dl_in Lp t Hp Hin) in E. inversion E; subst.
+          rewrite str_eqb_refl in Es. discriminate. }
+        now rewrite M.
+    + assert (M : mem t Lp = false).
+      { apply mem_false. intros Hin. exact (dget_dl_none _ _ E t Hin eq_refl). }
+      now rewrite M.
+Qed.
+
+(* ---------- what one change point emits ---------- *)
+Definition jn (l : list str) : str := join [SEMI] l.
+Definition em (pn : bool) (Lp Ln : list str) : option str :=
+  let opt := jn (dcodes Lp Ln) in
+  let codes := jn (if pn && negb (is_nil Ln) then [CH_0] :: Ln else Ln) in
+  if is_nil opt then None else Some (if length opt <? length codes then opt else codes).
+Definition emc (Lp Ln : list str) : option str := em (negb (is_nil Lp)) Lp Ln.
+Definition emit (o : option str) : str := match o with Some b => ESC :: LBR :: b ++ [CH_m] | None => [] end.
+
+Lemma jn_cons x L : L <> [] -> jn (x :: L) = x ++ SEMI :: jn L.
+Proof. destruct L; [congruence|reflexivity]. Qed.
+
+Lemma jn_app_longer Lp A : Lp <> [] -> A <> [] -> length (jn A) < length (jn (Lp ++ A)).
+Proof.
+  induction Lp as [|x Lp IH]; intros H HA; [congruence|]. cbn [app].
+  rewrite jn_cons by (destruct Lp; [exact HA|discriminate]). rewrite app_length. cbn [length].
+  destruct Lp as [|y Lp]; [cbn [app]; lia|]. specialize (IH ltac:(discriminate) HA). lia.
+Qed.
+
+Lemma nodup_app_l {A} (a b : list A) : NoDup (a ++ b) -> NoDup a.
+Proof.
+  induction a as [|x a IH]; intros H; [constructor|]. cbn [app] in H. inversion H; subst.
+  constructor; [|now apply IH]. intros Hin. apply H2. apply in_or_app. now left.
+Qed.
+
+Lemma canonL_app_l a b : canonL (a ++ b) -> canonL a.
+Proof.
+  intros [H1 H2]. split.
+  - rewrite map_app in H1. eapply nodup_app_l; eauto.
+  - intros t Ht. apply H2. apply in_or_app. now left.
+Qed.
+
+Lemma dcodes_append Lp A : canonL (Lp ++ A) -> dcodes Lp (Lp ++ A) = A.
+Proof.
+  intros Hc. pose proof (canonL_texts_nodup _ Hc) as Hnd. unfold dcodes.
+  assert (Hcl : clears Lp (Lp ++ A) = []).
+  { unfold clears. rewrite (flat_map_filter _ (fun _ => false)).
+    - now apply filter_none.
+    - intros t Ht. now rewrite (dget_dl_in (Lp ++ A) t Hc) by (apply in_or_app; now left). }
+  rewrite Hcl. cbn [app]. unfold news. rewrite filter_app.
+  rewrite filter_none by (intros t Ht; apply negb_false_iff; now apply mem_In).
+  cbn [app]. apply filter_all. intros t Ht. apply negb_true_iff, mem_false. intros Hin.
+  clear -Hnd Ht Hin. induction Lp as [|x Lp IH]; [destruct Hin|]. cbn [app] in Hnd. inversion Hnd; subst.
+  destruct Hin as [->|Hin]; [|now apply IH]. apply H1. apply in_or_app. now right.
+Qed.
+
+Lemma em_indep Lp A : canonL (Lp ++ A) -> Lp <> [] -> em false Lp (Lp ++ A) = em true Lp (Lp ++ A).
+Proof.
+  intros Hc Hne. unfold em. cbv zeta. rewrite dcodes_append by exact Hc.
+  destruct A as [|a A]; [reflexivity|].
+  destruct (is_nil (jn (a :: A))); [reflexivity|]. f_equal.
+  assert (Hn : is_nil (Lp ++ a :: A) = false) by (destruct Lp; [congruence|reflexivity]).
+  rewrite Hn. cbn [andb negb].
+  pose proof (jn_app_longer Lp (a :: A) Hne ltac:(discriminate)) as Hl.
+  assert (Hl2 : length (jn (Lp ++ a :: A)) < length (jn ([CH_0] :: Lp ++ a :: A))).
+  { rewrite jn_cons by (destruct Lp; discriminate). rewrite app_length. cbn [length]. lia. }
+  replace (length (jn (a :: A)) <? length (jn (Lp ++ a :: A))) with true by (symmetry; apply Nat.ltb_lt; lia).
+  replace (length (jn (a :: A)) <? length (jn ([CH_0] :: Lp ++ a :: A))) with true by (symmetry; apply Nat.ltb_lt; lia).
+  reflexivity.
+Qed.
+
+Lemma em_emc pn Lp Ln : canonL Ln -> (pn = false -> exists A, Ln = Lp ++ A) -> (pn = true -> Lp <> []) ->
+  em pn Lp Ln = emc Lp Ln.
+Proof.
+  intros Hc H0 H1. unfold emc. destruct pn, Lp as [|x Lp]; cbn [is_nil negb]; auto.
+  - exfalso. now apply H1.
+  - destruct (H0 eq_refl) as (A & ->). apply em_indep; [exact Hc|discriminate].
+Qed.
+
+(* the optimised renderer at one point, in these terms *)
+Lemma opt_pick_em Lp p cur : canonL Lp -> canonL (map stxt cur) ->
+  let Ln := map stxt cur in
+  let ac := opt_pick (dl Lp) (dl Ln) (pt_codes p cur) in
+  bytes_of (if fst ac then [OSgr (snd ac)] else []) = emit (em (negb (is_nil (prem p))) Lp Ln).
+Proof.
+  intros Hp Hn Ln ac. unfold ac, opt_pick, em, pt_codes. cbv zeta. fold Ln.
+  rewrite diff_codes_dl by assumption. fold (jn (dcodes Lp Ln)).
+  fold (jn (if negb (is_nil (prem p)) && negb (is_nil Ln) then [CH_0] :: Ln else Ln)).
+  destruct (is_nil (jn (dcodes Lp Ln))); [reflexivity|].
+  destruct (_ <? _); cbn [fst snd bytes_of flat_map bytes_of_tok emit]; now rewrite app_nil_r.
+Qed.
+
+(* ---------- the rendering as a function of the base text and the active texts per position ---------- *)
+Fixpoint prender (s : str) (k : nat) (Lp : list str) (A : nat -> list str) : str :=
+  match s with
+  | [] => if is_nil Lp then [] else [ESC; LBR; CH_m]
+  | ch :: s' => emit (emc Lp (A k)) ++ ch :: prender s' (S k) (A k) A
+  end.
+
+Lemma emc_same L : canonL L -> emc L L = None.
+Proof.
+  intros Hc. unfold emc, em. cbv zeta.
+  pose proof (dcodes_append L [] ltac:(now rewrite app_nil_r)) as H. rewrite app_nil_r in H. rewrite H. reflexivity.
+Qed.
+
+Lemma skipn_S_nth (s : str) a : a < length s -> exists ch, skipn a s = ch :: skipn (S a) s.
+Proof.
+  revert a. induction s as [|x s IH]; intros a Ha; [cbn in Ha; lia|].
+  destruct a as [|a]; [now exists x|]. cbn [length] in Ha. destruct (IH a ltac:(lia)) as (ch & E).
+  exists ch. exact E.
+Qed.
+
+Lemma slice_S (s : str) a ch : skipn a s = ch :: skipn (S a) s -> str_slice s a (S a) = [ch].
+Proof. intros E. unfold str_slice. rewrite E. replace (S a - a) with 1 by lia. reflexivity. Qed.
+
+Lemma firstn_add {A} m n : forall (l : list A), firstn (m + n) l = firstn m l ++ firstn n (skipn m l).
+Proof.
+  induction m as [|m IH]; intros l; [reflexivity|]. destruct l as [|x l].
+  - cbn [plus firstn skipn app]. now rewrite firstn_nil.
+  - cbn [plus firstn skipn app]. now rewrite IH.
+Qed.
+Lemma skipn_add {A} a m : forall (l : list A), skipn m (skipn a l) = skipn (a + m) l.
+Proof.
+  induction a as [|a IH]; intros l; [reflexivity|]. destruct l as [|x l]; [now rewrite !skipn_nil|].
+  cbn [plus skipn]. apply IH.
+Qed.
+Lemma slice_cat (s : str) a b c : a <= b -> b <= c -> str_slice s a b ++ str_slice s b c = str_slice s a c.
+Proof.
+  intros Hab Hbc. unfold str_slice. replace (c - a) with ((b - a) + (c - b)) by lia.
+  rewrite firstn_add, skipn_add. replace (a + (b - a)) with b by lia. reflexivity.
+Qed.
+Lemma slice_to_end (s : str) a : str_slice s a (length s) = skipn a s.
+Proof. unfold str_slice. apply firstn_all2. rewrite skipn_length. lia. Qed.
+Lemma slice_empty (s : str) a : str_slice s a a = [].
+Proof. unfold str_slice. now rewrite Nat.sub_diag. Qed.
+
+Section Render.
+Variable s : str.
+Variable A : nat -> list str.
+Hypothesis HA : forall k, canonL (A k).
+
+Definition P (a : nat) (L : list str) : str := prender (skipn a s) a L A.
+
+Lemma P_step a L : a < length s -> P a L = emit (emc L (A a)) ++ str_slice s a (S a) ++ P (S a) (A a).
+Proof.
+  intros Ha. unfold P. destruct (skipn_S_nth s a Ha) as (ch & E). rewrite (slice_S s a ch E), E. reflexivity.
+Qed.
+
+Lemma P_end a L : length s <= a -> P a L = if is_nil L then [] else [ESC; LBR; CH_m].
+Proof. intros Ha. unfold P. rewrite skipn_all2 by exact Ha. reflexivity. Qed.
+
+(* no change, no output *)
+Lemma P_const L : canonL L -> forall n a b, b - a <= n -> a <= b -> b <= length s ->
+  (forall j, a <= j < b -> A j = L) -> P a L = str_slice s a b ++ P b L.
+Proof.
+  intros Hc. induction n as [|n IH]; intros a b Hn Hab Hb Hj.
+  - assert (a = b) by lia. subst. now rewrite slice_empty.
+  - destruct (Nat.eq_dec a b) as [->|Hne]; [now rewrite slice_empty|].
+    rewrite P_step by lia. rewrite (Hj a) by lia. rewrite (emc_same L Hc). cbn [emit app].
+    rewrite (IH (S a) b) by (try lia; intros; apply Hj; lia).
+    rewrite app_assoc, slice_cat by lia. reflexivity.
+Qed.
+End Render.
+
+Definition RESET : str := [ESC; LBR; CH_m].
+
+Section RenderLoop.
+Variable s : str.
+Variable tb : fmts.
+Hypothesis Hs : ssorted tb.
+Hypothesis Hstrict : strict_ok tb = true.
+Let A (k : nat) : list str := map stxt (active_at tb k).
+Hypothesis HA : forall k, canonL (A k).
+
+Let Pp := P s A.
+
+Definition Lc (done : fmts) : list str := map stxt (trun [] done).
+
+Definition Iv (done : fmts) (st : rstate) : Prop :=
+  r_dict st = dl (Lc done) /\ r_exist st = negb (is_nil (Lc done))
+  /\ ((done = [] /\ r_first st = true /\ r_last st = 0 /\ r_out st = [])
+      \/ (r_first st = false /\ r_last st < length s /\ exists d0 p0, done = d0 ++ [(r_last st, p0)])).
+
+Definition Q (done : fmts) (st : rstate) : str :=
+  if r_first st then Pp 0 [] else str_slice s (r_last st) (S (r_last st)) ++ Pp (S (r_last st)) (Lc done).
+
+Lemma A_between done rest j : tb = done ++ rest ->
+  (forall kp, In kp done -> fst kp <= j) -> (forall kp, In kp rest -> j < fst kp) -> A j = Lc done.
+Proof. intros E H1 H2. unfold A, Lc. rewrite E. rewrite active_at_between; auto. now rewrite <- E. Qed.
+
+Lemma done_keys d0 k0 p0 rest kp : tb = (d0 ++ [(k0, p0)]) ++ rest -> In kp (d0 ++ [(k0, p0)]) -> fst kp <= k0.
+Proof.
+  intros E Hin. apply in_app_or in Hin as [Hin|[<-|[]]]; [|cbn; lia].
+  rewrite E, <- app_assoc in Hs. pose proof (ssorted_app_lt d0 _ Hs kp (k0, p0) Hin (or_introl eq_refl)). cbn [fst] in *. lia.
+Qed.
+
+Lemma canon_Lc done rest : tb = done ++ rest -> canonL (Lc done).
+Proof.
+  intros E. destruct rest as [|[k p] rest'].
+  - (* beyond all keys *)
+    set (j := S (fold_right (fun kp m => Nat.max (fst kp) m) 0 done)).
+    rewrite <- (A_between done [] j E); [apply HA| |intros kp []].
+    intros kp Hin. unfold j. clear -Hin. induction done as [|x d IH]; [destruct Hin|].
+    cbn [fold_right]. destruct Hin as [<-|Hin]; [lia|]. specialize (IH Hin). lia.
+  - destruct done as [|x d] using rev_ind; [apply canonL_nil|]. clear IHd. destruct x as [k0 p0].
+    rewrite <- (A_between (d ++ [(k0, p0)]) ((k, p) :: rest') k0 E); [apply HA| |].
+    + intros kp Hin. eapply done_keys; eauto.
+    + intros kp Hin. rewrite E in Hs. 
+      pose proof (ssorted_app_lt _ _ Hs (k0, p0) kp ltac:(apply in_or_app; right; now left) Hin). exact H.
+Qed.
+
+(* from the current state to the next change point (or to the end) only text is produced *)
+Lemma Q_to done rest st k : tb = done ++ rest -> Iv done st -> k <= length s ->
+  (forall kp, In kp rest -> k <= fst kp) -> (forall kp, In kp done -> fst kp < k) ->
+  Q done st = str_slice s (r_last st) k ++ Pp k (Lc done).
+Proof.
+  intros E (Hd & He & Hcase) Hk Hrest Hdone. unfold Q, Pp.
+  pose proof (canon_Lc done rest E) as Hc.
+  destruct Hcase as [(-> & Hf & Hl & Ho)|(Hf & Hl & d0 & p0 & Ed)]; rewrite Hf.
+  - rewrite Hl. change (Lc []) with (@nil str) in *.
+    apply (P_const s A HA [] Hc k 0 k); try lia.
+    intros j Hj. apply (A_between [] rest j E); [intros kp []|]. intros kp Hin. specialize (Hrest kp Hin). lia.
+  - assert (Hlt : r_last st < k). { apply (Hdone (r_last st, p0)). rewrite Ed. apply in_or_app. right. now left. }
+    rewrite (P_const s A HA (Lc done) Hc k (S (r_last st)) k); try lia.
+    + rewrite app_assoc, slice_cat by lia. reflexivity.
+    + intros j Hj. apply (A_between done rest j E).
+      * intros kp Hin. rewrite Ed in Hin, E. pose proof (done_keys _ _ _ _ kp E Hin). lia.
+      * intros kp Hin. specialize (Hrest kp Hin). lia.
+Qed.
+
+Lemma Q_finish done rest st : tb = done ++ rest -> Iv done st ->
+  (forall kp, In kp rest -> length s <= fst kp) -> (forall kp, In kp done -> fst kp < length s) ->
+  Q done st = skipn (r_last st) s ++ (if r_exist st then RESET else []).
+Proof.
+  intros E Hi Hrest Hdone. rewrite (Q_to done rest st (length s) E Hi (le_n _) Hrest Hdone).
+  rewrite slice_to_end. unfold Pp. rewrite P_end by lia. destruct Hi as (_ & He & _). rewrite He.
+  now destruct (is_nil (Lc done)).
+Qed.
+
+Lemma bytes_of_app a b : bytes_of (a ++ b) = bytes_of a ++ bytes_of b.
+Proof. unfold bytes_of. apply flat_map_app. Qed.
+
+Lemma bytes_opt_text x : bytes_of (if is_nil x then [] else [OText x]) = x.
+Proof. destruct x; [reflexivity|]. cbn [is_nil bytes_of flat_map bytes_of_tok]. now rewrite app_nil_r. Qed.
+
+Lemma loop_spec : forall rest done st, tb = done ++ rest -> Iv done st ->
+  (forall kp, In kp done -> fst kp < length s) ->
+  let st' := render_loop s true false (iter_states rest (trun [] done)) st in
+  bytes_of (r_out st') ++ skipn (r_last st') s ++ (if r_exist st' then RESET else [])
+  = bytes_of (r_out st) ++ Q done st.
+Proof.
+  induction rest as [|[k p] rest IH]; intros done st E Hi Hdone.
+  - cbn [iter_states render_loop]. f_equal. symmetry. apply (Q_finish done [] st E Hi); auto. intros kp [].
+  - cbn [iter_states render_loop].
+    assert (Hsort : ssorted (done ++ (k, p) :: rest)) by (now rewrite <- E).
+    assert (Hrest_ge : forall kp, In kp ((k, p) :: rest) -> k <= fst kp).
+    { intros kp [<-|Hin]; [cbn; lia|]. apply ssorted_app_r in Hsort. inversion Hsort; subst. specialize (H1 kp Hin). lia. }
+    destruct (length s <=? k) eqn:Ek.
+    + apply Nat.leb_le in Ek. f_equal. symmetry. apply (Q_finish done ((k, p) :: rest) st E Hi); auto.
+      intros kp Hin. specialize (Hrest_ge kp Hin). lia.
+    + apply Nat.leb_gt in Ek.
+      assert (Hdone_lt : forall kp, In kp done -> fst kp < k).
+      { intros kp Hin. exact (ssorted_app_lt _ _ Hsort kp (k, p) Hin (or_introl eq_refl)). }
+      set (act := trun [] done). set (cur := step act p).
+      assert (E' : tb = (done ++ [(k, p)]) ++ rest) by (rewrite <- app_assoc; exact E).
+      assert (Hcur : map stxt cur = Lc (done ++ [(k, p)])) by (unfold Lc; now rewrite trun_snoc).
+      assert (HAk : A k = map stxt cur).
+      { rewrite Hcur. apply (A_between _ rest k E').
+        - intros kp Hin. eapply done_keys; eauto.
+        - intros kp Hin. apply ssorted_app_r in Hsort. inversion Hsort; subst. now apply H1. }
+      assert (Hcn : canonL (map stxt cur)) by (rewrite <- HAk; apply HA).
+      pose proof (canon_Lc done _ E) as Hcp.
+      destruct Hi as (Hd & He & Hcase).
+      (* the point's emission *)
+      assert (Hem : em (negb (is_nil (prem p))) (Lc done) (map stxt cur) = emc (Lc done) (map stxt cur)).
+      { apply em_emc; [exact Hcn| |].
+        - intros Hp. apply negb_false_iff in Hp. destruct (prem p) eqn:Ep; [|discriminate].
+          exists (map stxt (padd p)). unfold cur. rewrite (step_no_rem act p Ep), map_app. reflexivity.
+        - intros Hp. apply negb_true_iff in Hp. destruct (prem p) as [|r rs] eqn:Ep; [discriminate|].
+          apply strict_ok_from_run in Hstrict. rewrite E in Hstrict. apply strict_run_app in Hstrict as [_ Hst].
+          cbn [strict_run] in Hst. destruct Hst as [Hst _]. rewrite Ep in Hst. cbn [strict_rems] in Hst.
+          fold act in Hst. unfold Lc. fold act. destruct act; [cbn in Hst; congruence|discriminate]. }
+      set (st1 := render_point s true false st k p cur).
+      assert (Hst1 : st1 = {| r_out := r_out st ++ (if is_nil (str_slice s (r_last st) k) then [] else [OText (str_slice s (r_last st) k)])
+                                          ++ (let ac := opt_pick (dl (Lc done)) (dl (map stxt cur)) (pt_codes p cur) in
+                                              if fst ac then [OSgr (snd ac)] else []);
+                              r_last := k; r_dict := dl (map stxt cur); r_exist := negb (is_nil cur); r_first := false |}).
+      { unfold st1. rewrite render_point_opt. cbv zeta. rewrite (s2d_canon _ Hcn), Hd.
+        unfold rs_wrap. rewrite !andb_false_r. cbn [app]. reflexivity. }
+      assert (Hi1 : Iv (done ++ [(k, p)]) st1).
+      { rewrite Hst1. unfold Iv. cbn [r_dict r_exist r_first r_last r_out]. rewrite <- Hcur.
+        split; [reflexivity|]. split; [now destruct cur|]. right. split; [reflexivity|]. split; [exact Ek|].
+        now exists done, p. }
+      specialize (IH (done ++ [(k, p)]) st1 E' Hi1).
+      rewrite trun_snoc in IH. fold act cur in IH. cbv zeta in IH. rewrite IH.
+      2:{ intros kp Hin. apply in_app_or in Hin as [Hin|[<-|[]]]; [now apply Hdone|exact Ek]. }
+      (* both sides *)
+      rewrite (Q_to done ((k, p) :: rest) st k E (conj Hd (conj He Hcase)) ltac:(lia) Hrest_ge Hdone_lt).
+      unfold Q. rewrite Hst1. cbn [r_first r_last r_out].
+      rewrite !bytes_of_app, bytes_opt_text, (opt_pick_em (Lc done) p cur Hcp Hcn), Hem.
+      unfold Pp at 2. rewrite (P_step s A k (Lc done) Ek). rewrite HAk, <- Hcur.
+      rewrite <- !app_assoc. reflexivity.
+Qed.
+
+Theorem render_prender : is_parsable_tbl tb = true ->
+  to_str (mkA s tb) true false true = prender s 0 [] A.
+Proof.
+  intros Hp. unfold to_str, to_str_toks. cbn [base tbl]. rewrite Hp. cbn [negb andb]. rewrite andb_true_r.
+  assert (Hi0 : Iv [] {| r_out := []; r_last := 0; r_dict := []; r_exist := false; r_first := true |}).
+  { unfold Iv. cbn. split; [reflexivity|]. split; [reflexivity|]. left. auto. }
+  destruct (is_nil tb) eqn:En.
+  - assert (HAnil : forall j, A j = []).
+    { intros j. unfold A. clear -En. destruct tb; [reflexivity|discriminate]. }
+    rewrite bytes_opt_text.
+    change (prender s 0 [] A) with (P s A 0 []).
+    rewrite (P_const s A HA [] canonL_nil (length s) 0 (length s)); try lia.
+    + rewrite slice_to_end, P_end by lia. cbn [skipn is_nil]. now rewrite app_nil_r.
+    + intros j _. apply HAnil.
+  - pose proof (loop_spec tb [] _ eq_refl Hi0 ltac:(intros kp [])) as H. cbv zeta in H.
+    change (trun [] []) with (@nil setting) in H.
+    set (st' := render_loop s true false (iter_states tb []) _) in *.
+    rewrite !bytes_of_app. rewrite andb_false_r. cbn [bytes_of flat_map app].
+    rewrite bytes_opt_text. fold (bytes_of (r_out st')).
+    replace (bytes_of (if r_exist st' && true then [OSgr []] else [])) with (if r_exist st' then RESET else [])
+      by (destruct (r_exist st'); reflexivity).
+    etransitivity; [exact H|reflexivity].
+Qed.
+End RenderLoop.
+
+(* ====================================================================================== *)
+(* (S) one parse step, exactly, on the lists of active texts                               *)
+(* ====================================================================================== *)
+Definition AT (s : astr) (k : nat) : list str := map stxt (active_at (tbl s) k).
+
+Lemma map_keep sel L : map stxt (keep (Some sel) L) = filter (fun t => negb (mem t sel)) (map stxt L).
+Proof.
+  unfold keep. induction L as [|x L IH]; [reflexivity|]. cbn [filter map].
+  change (selected (Some sel) x) with (mem (stxt x) sel). destruct (mem (stxt x) sel); cbn [negb map]; now rewrite IH.
+Qed.
+
+Lemma parse_step_exact s cur key body nid texts :
+  PInv s cur key nid -> key < length (base s) -> pgs_str body false = OK texts ->
+  forall k, key <= k < length (base s) ->
+  AT (fst (fst (parse_step s cur key body nid))) k
+  = filter (fun t => negb (mem t (step_rem cur nid texts))) (AT s k) ++ step_app cur nid texts.
+Proof.
+  intros (Hwf & Hids & Hcur & Hrep & Hmid) Hkey Hp k Hk.
+  rewrite (parse_step_unfold _ _ _ _ _ _ Hp). cbv zeta. cbn [fst snd].
+  set (to_rem := step_rem cur nid texts). set (to_app := step_app cur nid texts).
+  pose proof (step_remove s to_rem key Hwf Hkey) as H1. cbv zeta in H1.
+  set (s1 := if is_nil to_rem then s else remove_fmt s (Some to_rem) (Some (Z.of_nat key)) None) in *.
+  destruct H1 as (Hb1 & Hwf1 & Hlo1 & Hin1 & Hhi1 & Hmid1).
+  assert (Hids1 : ids_lt (tbl s1) nid).
+  { intros j x Hx. destruct (lt_dec j key) as [Hl|Hl]; [rewrite Hlo1 in Hx by lia; eauto|].
+    destruct (lt_dec j (length (base s))) as [Hl2|Hl2].
+    - rewrite Hin1 in Hx by lia. apply keep_in in Hx as [Hx _]. eauto.
+    - rewrite Hhi1 in Hx by lia. eauto. }
+  set (nid1 := nid + length texts). set (nws := fst (fresh to_app nid1)).
+  assert (Hfr : fresh_for nws (tbl s1)) by (apply fresh_fresh with nid; auto; unfold nid1; lia).
+  assert (Hkey1 : key < length (base s1)) by (rewrite Hb1; auto).
+  pose proof (step_apply s1 nws key Hwf1 Hfr Hkey1) as H2. cbv zeta in H2.
+  destruct H2 as (Hb2 & Hwf2 & Hout2 & Hin2 & Hmid2). rewrite Hb1 in Hout2, Hin2.
+  destruct (Hin2 k Hk) as (l1 & l2 & E1 & E2 & E3).
+  assert (Hl2 : l2 = []).
+  { apply E3. intros kp Hkp Hr. exfalso. destruct (Hmid1 Hmid kp Hkp) as [H|H]; [lia|]. rewrite Hb1 in H. lia. }
+  subst l2. rewrite app_nil_r in E1, E2. unfold AT. rewrite E2, map_app. f_equal.
+  - rewrite <- E1, (Hin1 k Hk). apply map_keep.
+  - apply fresh_texts.
+Qed.
+
+(* ====================================================================================== *)
+(* settings_to_dict as "last writer wins"                                                   *)
+(* ====================================================================================== *)
+Section LW.
+Context {V : Type} (txt : V -> str).
+
+Definition lw_step (e : effect) (acc : option (option V)) (v : V) : option (option V) :=
+  match tk (txt v) with
+  | KSet e' => if effect_beq e' e then Some (Some v) else acc
+  | KClr e' => if effect_beq e' e then Some None else acc
+  | KReset => Some None
+  | KNone => acc
+  end.
+Definition lw (l : list V) (e : effect) : option (option V) := fold_left (lw_step e) l None.
+
+Lemma lw_fold l e : forall acc, fold_left (lw_step e) l acc = match lw l e with Some r => Some r | None => acc end.
+Proof.
+  unfold lw. induction l as [|v l IH]; intros acc; [reflexivity|]. cbn [fold_left].
+  rewrite (IH (lw_step e acc v)), (IH (lw_step e None v)).
+  destruct (fold_left (lw_step e) l None); [reflexivity|].
+  unfold lw_step. destruct (tk (txt v)) as [|e'|e'|]; try reflexivity; destruct (effect_beq e' e); reflexivity.
+Qed.
+
+Lemma lw_app a b e : lw (a ++ b) e = match lw b e with Some r => Some r | None => lw a e end.
+Proof. unfold lw at 1. rewrite fold_left_app. fold (lw a e). apply lw_fold. Qed.
+
+Lemma lw_cons v l e : lw (v :: l) e = match lw l e with Some r => Some r | None => lw_step e None v end.
+Proof. change (v :: l) with ([v] ++ l). rewrite lw_app. reflexivity. Qed.
+
+Lemma s2d_lw l : forall d e, nodupk d ->
+  dget (s2d txt l d) e = match lw l e with Some r => r | None => dget d e end.
+Proof.
+  induction l as [|v l IH]; intros d e Hd; [reflexivity|].
+  change (s2d txt (v :: l) d) with (s2d txt l (s2d_step txt d v)).
+  rewrite IH by (now apply s2d_step_nodupk). rewrite lw_cons.
+  destruct (lw l e); [reflexivity|]. rewrite s2d_step_tk. unfold lw_step.
+  destruct (tk (txt v)) as [|e'|e'|]; try reflexivity.
+  - rewrite dget_dset. now destruct (effect_beq e' e).
+  - rewrite dget_ddel by exact Hd. now destruct (effect_beq e' e).
+Qed.
+
+(* a list of settings that all SET, pairwise different effects *)
+Lemma lw_sets_none l e : (forall v, In v l -> tk (txt v) = KSet (eff0 (txt v)) /\ eff0 (txt v) <> e) -> lw l e = None.
+Proof.
+  induction l as [|v l IH]; intros H; [reflexivity|]. rewrite lw_cons, IH by (intros; apply H; now right).
+  destruct (H v (or_introl eq_refl)) as [Hk Hne]. unfold lw_step. rewrite Hk.
+  destruct (effect_beq (eff0 (txt v)) e) eqn:E; [|reflexivity]. apply effect_beq_eq in E. congruence.
+Qed.
+
+Lemma lw_sets_some l v : (forall v, In v l -> tk (txt v) = KSet (eff0 (txt v))) ->
+  NoDup (map (fun v => eff0 (txt v)) l) -> In v l -> lw l (eff0 (txt v)) = Some (Some v).
+Proof.
+  induction l as [|a l IH]; intros Hk Hnd Hin; [destruct Hin|]. cbn [map] in Hnd. inversion Hnd as [|? ? Hn Hd]; subst.
+  rewrite lw_cons. destruct Hin as [->|Hin].
+  - rewrite lw_sets_none.
+    + unfold lw_step. rewrite (Hk v (or_introl eq_refl)), effect_beq_refl. reflexivity.
+    + intros w Hw. split; [apply Hk; now right|]. intros E. apply Hn. rewrite <- E. apply in_map_iff. now exists w.
+  - rewrite IH; auto. intros; apply Hk; now right.
+Qed.
+
+(* a list of settings that all CLEAR *)
+Lemma lw_clears l e : (forall v, In v l -> exists e', tk (txt v) = KClr e') ->
+  lw l e = if existsb (fun v => match tk (txt v) with KClr e' => effect_beq e' e | _ => false end) l then Some None else None.
+Proof.
+  induction l as [|v l IH]; intros H; [reflexivity|]. rewrite lw_cons, IH by (intros; apply H; now right).
+  cbn [existsb]. destruct (H v (or_introl eq_refl)) as (e' & Hk). unfold lw_step. rewrite Hk.
+  destruct (existsb _ l); [now rewrite orb_true_r|]. rewrite orb_false_r. now destruct (effect_beq e' e).
+Qed.
+End LW.
+
+(* ====================================================================================== *)
+(* (J) what one parse step does to a canonical list of active texts                         *)
+(* ====================================================================================== *)
+Definition RepT (cur : dict vset) (L : list str) : Prop :=
+  (forall t, In t L -> tk t = KSet (eff0 t) /\ exists i, dget cur (eff0 t) = Some (i, t))
+  /\ (forall e i t, dget cur e = Some (i, t) -> In t L).
+
+Lemma Rep_RepT cur act : Rep cur act -> RepT cur (map stxt act).
+Proof.
+  intros [R1 R2]. split.
+  - intros t Ht. apply in_map_iff in Ht as (x & <- & Hx). destruct (R1 x Hx) as (e & i & Hk & Hg).
+    unfold eff0. rewrite Hk. split; [reflexivity|]. now exists i.
+  - exact R2.
+Qed.
+
+Lemma nodup_map_filter {A B} (f : A -> B) (p : A -> bool) l : NoDup (map f l) -> NoDup (map f (filter p l)).
+Proof.
+  induction l as [|x l IH]; intros H; [constructor|]. cbn [map] in H. inversion H as [|? ? Hn Hd]; subst.
+  cbn [filter]. destruct (p x); [|now apply IH]. cbn [map]. constructor; [|now apply IH].
+  intros Hin. apply Hn. apply in_map_iff in Hin as (y & E & Hy). apply filter_In in Hy as [Hy _].
+  apply in_map_iff. now exists y.
+Qed.
+
+Section TStep.
+Variables (cur : dict vset) (nid : nat) (texts : list str) (L : list str).
+Hypothesis Hcur : cur_ok cur.
+Hypothesis Htexts : Forall text_ok texts.
+Hypothesis HL : RepT cur L.
+Hypothesis HcL : canonL L.
+Let S := step_settings nid texts.
+Let new := step_new cur nid texts.
+Let to_rem := step_rem cur nid texts.
+Let to_app := step_app cur nid texts.
+
+Definition stillb (t : str) : bool := match dget new (eff0 t) with Some v => str_eqb (snd v) t | None => false end.
+Definition lastw (sv : vset) : bool :=
+  match effect_of (snd sv) with
+  | Some e => match dget new e with Some v => Nat.eqb (fst v) (fst sv) | None => false end
+  | None => false end.
+
+Lemma keep_still : filter (fun t => negb (mem t to_rem)) L = filter stillb L.
+Proof.
+  apply filter_ext_in. intros t Ht. destruct HL as [R1 R2]. destruct (R1 t Ht) as (Hk & i & Hg).
+  destruct Hcur as [Hnd Hok]. unfold stillb. fold new.
+  destruct (dget new (eff0 t)) as [v|] eqn:En.
+  - destruct (new_get cur nid texts Hcur (eff0 t) v En) as [[Hv Hkv]|[Hc Hno]].
+    + destruct (str_eqb (snd v) t) eqn:Es.
+      * apply str_eqb_eq in Es. apply negb_true_iff, mem_false.
+        apply (not_removed cur nid texts Hcur (eff0 t) v t En Hk). left. auto.
+      * apply str_eqb_neq in Es. apply negb_false_iff, mem_In. unfold to_rem, step_rem. cbv zeta.
+        apply in_or_app. left. apply in_flat_map. exists v. split; [exact Hv|].
+        apply (rem_of_intro _ cur v (eff0 t) v (i, t));
+          [rewrite effect_of_tk, Hkv; reflexivity|exact En|reflexivity|exact Hg|cbn [snd]; congruence].
+    + rewrite Hg in Hc. inversion Hc; subst v. cbn [snd]. rewrite str_eqb_refl.
+      apply negb_true_iff, mem_false.
+      apply (not_removed cur nid texts Hcur (eff0 t) (i, t) t En Hk). right. exact Hno.
+  - apply negb_false_iff, mem_In. unfold to_rem, step_rem. cbv zeta. apply in_or_app. right.
+    apply in_flat_map. exists (eff0 t, (i, t)). split; [now apply dget_in|].
+    unfold gone_of. cbn [fst snd]. fold new. rewrite En. now left.
+Qed.
+
+Lemma app_of_canon sv : In sv S ->
+  app_of new cur sv = if lastw sv && negb (mem (snd sv) L) then [snd sv] else [].
+Proof.
+  intros Hsv. destruct HL as [R1 R2]. destruct Hcur as [Hnd Hok]. unfold app_of, lastw.
+  destruct (effect_of (snd sv)) as [e|] eqn:He; [|reflexivity].
+  destruct (dget new e) as [v|] eqn:En; [|reflexivity].
+  destruct (Nat.eqb (fst v) (fst sv)) eqn:Ei; [|reflexivity]. apply Nat.eqb_eq in Ei. cbn [andb].
+  destruct (new_entry cur nid texts Hcur e v sv En Hsv He Ei) as [-> Hk].
+  assert (He0 : eff0 (snd sv) = e) by (unfold eff0; now rewrite Hk).
+  destruct (dget cur e) as [o|] eqn:Ec.
+  - destruct o as [io to]. cbn [snd]. pose proof (R2 e io to Ec) as Hin.
+    destruct (str_eqb to (snd sv)) eqn:Es.
+    + apply str_eqb_eq in Es. subst to. assert (M : mem (snd sv) L = true) by now apply mem_In. now rewrite M.
+    + assert (M : mem (snd sv) L = false).
+      { apply mem_false. intros Hin'. destruct (R1 _ Hin') as (_ & i' & Hg'). rewrite He0, Ec in Hg'.
+        inversion Hg'; subst. rewrite str_eqb_refl in Es. discriminate. }
+      now rewrite M.
+  - assert (M : mem (snd sv) L = false).
+    { apply mem_false. intros Hin'. destruct (R1 _ Hin') as (_ & i' & Hg'). rewrite He0, Ec in Hg'. discriminate. }
+    now rewrite M.
+Qed.
+
+Definition appsel (sv : vset) : list str := if lastw sv && negb (mem (snd sv) L) then [snd sv] else [].
+
+Lemma to_app_canon : to_app = flat_map appsel S.
+Proof.
+  unfold to_app, step_app. fold S new. clear -Hcur Htexts HL. 
+  assert (H : forall sv, In sv S -> app_of new cur sv = appsel sv) by (intros; now apply app_of_canon).
+  induction S as [|sv l IH]; [reflexivity|]. cbn [flat_map]. rewrite (H sv (or_introl eq_refl)).
+  f_equal. apply IH. intros; apply H; now right.
+Qed.
+
+(* the new list *)
+Definition Lnew : list str := filter stillb L ++ to_app.
+
+Lemma in_to_app t : In t to_app -> ~ In t L /\ exists sv, In sv S /\ snd sv = t /\ dget new (eff0 t) = Some sv
+                                   /\ tk t = KSet (eff0 t) /\ parsable t = true.
+Proof.
+  rewrite to_app_canon. intros H. apply in_flat_map in H as (sv & Hsv & Ht). unfold appsel in Ht.
+  destruct (lastw sv && negb (mem (snd sv) L)) eqn:E; [|destruct Ht]. destruct Ht as [<-|[]].
+  apply andb_true_iff in E as [E1 E2]. apply negb_true_iff, mem_false in E2. split; [exact E2|].
+  unfold lastw in E1. destruct (effect_of (snd sv)) as [e|] eqn:He; [|discriminate].
+  destruct (dget new e) as [v|] eqn:En; [|discriminate]. apply Nat.eqb_eq in E1.
+  destruct (new_entry cur nid texts Hcur e v sv En Hsv He E1) as [-> Hk].
+  assert (He0 : eff0 (snd sv) = e) by (unfold eff0; now rewrite Hk).
+  exists sv. rewrite He0. repeat split; auto.
+  destruct (S_text nid texts Htexts sv Hsv) as [Hp|Hz]; auto. rewrite Hz, tk_zero in Hk. discriminate.
+Qed.
+
+Lemma in_still t : In t (filter stillb L) -> In t L /\ exists v, dget new (eff0 t) = Some v /\ snd v = t.
+Proof.
+  intros H. apply filter_In in H as [H1 H2]. split; auto. unfold stillb in H2.
+  destruct (dget new (eff0 t)) as [v|]; [|discriminate]. apply str_eqb_eq in H2. eauto.
+Qed.
+
+Lemma to_app_nodup : NoDup (map eff0 to_app).
+Proof.
+  rewrite to_app_canon.
+  assert (Hinj : forall a b, In a S -> In b S -> appsel a <> [] -> appsel b <> [] ->
+                   eff0 (snd a) = eff0 (snd b) -> a = b).
+  { intros a b Ha Hb Na Nb E.
+    assert (Hx : forall sv, In sv S -> appsel sv <> [] -> dget new (eff0 (snd sv)) = Some sv).
+    { intros sv Hsv Hn. assert (Hin : In (snd sv) to_app).
+      { rewrite to_app_canon. apply in_flat_map. exists sv. split; auto. unfold appsel in *.
+        destruct (lastw sv && negb (mem (snd sv) L)); [now left|congruence]. }
+      destruct (in_to_app _ Hin) as (_ & sv' & Hsv' & Es & Hg & _).
+      unfold appsel, lastw in Hn. destruct (effect_of (snd sv)) as [e|] eqn:He; [|cbn in Hn; congruence].
+      destruct (dget new e) as [v|] eqn:En; [|cbn in Hn; congruence].
+      destruct (Nat.eqb (fst v) (fst sv)) eqn:Ei; [|cbn in Hn; congruence]. apply Nat.eqb_eq in Ei.
+      destruct (new_entry cur nid texts Hcur e v sv En Hsv He Ei) as [-> Hk].
+      unfold eff0. rewrite Hk. exact En. }
+    pose proof (Hx a Ha Na) as H1. pose proof (Hx b Hb Nb) as H2. rewrite E in H1. congruence. }
+  pose proof (S_nodup nid texts) as Hnd. apply NoDup_map_inv in Hnd. fold S in Hnd.
+  clear -Hinj Hnd. induction S as [|sv l IH]; [constructor|]. cbn [flat_map]. inversion Hnd as [|? ? Hn Hd]; subst.
+  assert (IH' : NoDup (map eff0 (flat_map appsel l))).
+  { apply IH; auto. intros a b Ha Hb. apply Hinj; now right. }
+  unfold appsel at 1. destruct (lastw sv && negb (mem (snd sv) L)) eqn:E; [|exact IH'].
+  cbn [app map]. constructor; [|exact IH']. intros Hin. apply in_map_iff in Hin as (t & Et & Ht).
+  apply in_flat_map in Ht as (b & Hb & Htb). unfold appsel in Htb.
+  destruct (lastw b && negb (mem (snd b) L)) eqn:Eb; [|destruct Htb]. destruct Htb as [<-|[]].
+  assert (sv = b).
+  { apply Hinj; [now left|now right| | |congruence]; unfold appsel; [rewrite E|rewrite Eb]; discriminate. }
+  subst b. contradiction.
+Qed.
+
+Theorem Lnew_canon : canonL Lnew.
+Proof.
+  destruct HcL as [Hnd Hk]. split.
+  - unfold Lnew. rewrite map_app. apply nodup_app_iff. split; [now apply nodup_map_filter|]. split; [apply to_app_nodup|].
+    intros e H1 H2. apply in_map_iff in H1 as (t & <- & Ht). apply in_map_iff in H2 as (a & Ea & Ha).
+    destruct (in_still t Ht) as (HtL & v & Hg & Ev). destruct (in_to_app a Ha) as (HaL & sv & _ & Es & Hg' & _).
+    rewrite Ea, Hg in Hg'. inversion Hg'; subst v. apply HaL. now rewrite <- Es, Ev.
+  - intros t Ht. unfold Lnew in Ht. apply in_app_or in Ht as [Ht|Ht].
+    + apply Hk. now apply in_still in Ht as [Ht _].
+    + destruct (in_to_app t Ht) as (_ & _ & _ & _ & _ & H1 & H2). auto.
+Qed.
+
+(* kept settings keep their order, new ones are appended: (K3) *)
+Theorem Lnew_K3 : Lnew = filter (fun t => mem t Lnew) L ++ news L Lnew.
+Proof.
+  unfold Lnew at 1. f_equal.
+  - apply filter_ext_in. intros t Ht. destruct (stillb t) eqn:Es.
+    + symmetry. apply mem_In. unfold Lnew. apply in_or_app. left. apply filter_In. auto.
+    + symmetry. apply mem_false. intros Hin. unfold Lnew in Hin. apply in_app_or in Hin as [Hin|Hin].
+      * apply filter_In in Hin as [_ Hin]. congruence.
+      * now apply in_to_app in Hin as [Hin _].
+  - unfold news, Lnew. rewrite filter_app. rewrite filter_none, filter_all; [reflexivity| |].
+    + intros t Ht. apply negb_true_iff, mem_false. now apply in_to_app in Ht as [Ht _].
+    + intros t Ht. apply negb_false_iff, mem_In. now apply filter_In in Ht as [Ht _].
+Qed.
+End TStep.
+
+(* ====================================================================================== *)
+(* parse_graphic_sequence on a join of normal-form groups returns the groups                *)
+(* ====================================================================================== *)
+Definition goodg (g : list N) : Prop := g = [0%N] \/ parsableN g = true.
+
+Lemma group_shape g : group_ok g = true ->
+  (exists v, g = [v] /\ forall e, gen_class v <> CIntro e)
+  \/ (exists v e n, g = [v; 5%N; n] /\ gen_class v = CIntro e)
+  \/ (exists v e a b c, g = [v; 2%N; a; b; c] /\ gen_class v = CIntro e).
+Proof.
+  unfold group_ok. destruct g as [|v [|x r]]; [discriminate| |].
+  - intros H. left. exists v. split; auto. intros e E. rewrite E in H. discriminate.
+  - intros H.
+    assert (Hx : (x = 5 \/ x = 2)%N).
+    { destruct x as [|p]; [discriminate|]. destruct p as [p|p|]; try discriminate;
+      destruct p as [p|p|]; try discriminate; try destruct p as [p|p|]; try discriminate; auto. }
+    destruct Hx as [-> | ->].
+    + destruct r as [|n [|? ?]]; try discriminate. destruct (gen_class v) eqn:Ec; try discriminate.
+      right. left. now exists v, e, n.
+    + destruct r as [|a [|b [|d [|? ?]]]]; try discriminate. destruct (gen_class v) eqn:Ec; try discriminate.
+      right. right. now exists v, e, a, b, d.
+Qed.
+
+Lemma pgs_gN_one g rest : goodg g -> pgs_gN (g ++ rest) 0 [] = g :: pgs_gN rest 0 [].
+Proof.
+  intros [->|Hp].
+  - reflexivity.
+  - assert (Hk : keepN g = true) by (unfold keepN; now rewrite Hp).
+    unfold parsableN in Hp. apply andb_true_iff in Hp as [_ Hg].
+    destruct (group_shape g Hg) as [(v & -> & Hv)|[(v & e & n & -> & Hv)|(v & e & a & b & c & -> & Hv)]].
+    + cbn [app pgs_gN intro_kindN]. rewrite (class_nonintro v Hv). cbn [app]. now rewrite Hk.
+    + cbn [app pgs_gN intro_kindN]. rewrite (class_intro_is_intro v e Hv).
+      change (5 =? 5)%N with true. cbv iota. cbn [app]. now rewrite Hk.
+    + cbn [app pgs_gN intro_kindN]. rewrite (class_intro_is_intro v e Hv).
+      change (2 =? 5)%N with false. change (2 =? 2)%N with true. cbv iota. cbn [app]. now rewrite Hk.
+Qed.
+
+Lemma pgs_gN_groups gs : Forall goodg gs -> pgs_gN (concat gs) 0 [] = gs.
+Proof.
+  induction 1 as [|g gs Hg Hgs IH]; [reflexivity|]. cbn [concat]. rewrite pgs_gN_one by exact Hg. now rewrite IH.
+Qed.
+
+Lemma goodg_nonnil g : goodg g -> g <> [].
+Proof. intros [->|H]; [discriminate|]. intros ->. discriminate. Qed.
+
+Lemma codes_of_textN gs : Forall goodg gs -> codes_of_texts (map textN gs) = concat gs.
+Proof.
+  induction 1 as [|g gs Hg Hgs IH]; [reflexivity|]. cbn [map]. rewrite codes_of_texts_cons.
+  rewrite params_of_textN by (now apply goodg_nonnil). cbn [concat]. now rewrite IH.
+Qed.
+
+Theorem pgs_join gs : gs <> [] -> Forall goodg gs ->
+  pgs_str (jn (map textN gs)) false = OK (map textN gs).
+Proof.
+  intros Hne Hg.
+  assert (Hp : params_of (jn (map textN gs)) = Some (concat gs)).
+  { unfold jn. rewrite params_of_join.
+    - now rewrite codes_of_textN.
+    - destruct gs; [congruence|discriminate].
+    - apply Forall_forall. intros t Ht. apply in_map_iff in Ht as (g & <- & Hin).
+      rewrite Forall_forall in Hg. rewrite params_of_textN by (apply goodg_nonnil; auto). discriminate. }
+  pose proof (params_numeric _ _ Hp) as Hnum. rewrite (pgs_str_numeric _ Hnum).
+  rewrite (numeric_params _ Hnum) in Hp. inversion Hp as [Hc]. rewrite Hc, pgs_gN_groups by exact Hg. reflexivity.
+Qed.
+
+Lemma pgs_empty : pgs_str [] false = OK [[CH_0]].
+Proof. reflexivity. Qed.
+
+(* ====================================================================================== *)
+(* (C) re-parsing what the renderer emitted for the change L -> Ln gives Ln                 *)
+(* ====================================================================================== *)
+Definition nfL (L : list str) : Prop := forall t, In t L -> exists g, t = textN g /\ parsableN g = true.
+Definition clr_good (e : effect) : Prop :=
+  exists c, clear_code e = Some c /\ tk (decN c) = KClr e /\ decN c = textN [c] /\ parsableN [c] = true.
+
+Notation lwS := (@lw vset (@snd nat str)).
+
+Lemma step_settings_cons n x X : step_settings n (x :: X) = (n, x) :: step_settings (S n) X.
+Proof. reflexivity. Qed.
+
+Lemma step_settings_app X : forall n Y, step_settings n (X ++ Y) = step_settings n X ++ step_settings (n + length X) Y.
+Proof.
+  induction X as [|x X IH]; intros n Y.
+  - cbn [app length]. now rewrite Nat.add_0_r.
+  - cbn [app]. rewrite !step_settings_cons, IH. cbn [app length]. now rewrite Nat.add_succ_r.
+Qed.
+
+Lemma SX_snd n X : map snd (step_settings n X) = X.
+Proof. apply map_snd_combine. Qed.
+
+Lemma SX_in n X sv : In sv (step_settings n X) -> In (snd sv) X.
+Proof. intros H. rewrite <- (SX_snd n X). now apply in_map. Qed.
+
+Lemma SX_in_conv n X t : In t X -> exists sv, In sv (step_settings n X) /\ snd sv = t.
+Proof. intros H. rewrite <- (SX_snd n X) in H. apply in_map_iff in H as (sv & E & Hsv). eauto. Qed.
+
+Lemma SX_flat (p : str -> bool) X : forall n,
+  flat_map (fun sv : vset => if p (snd sv) then [snd sv] else []) (step_settings n X) = filter p X.
+Proof.
+  induction X as [|x X IH]; intros n; [reflexivity|]. rewrite step_settings_cons. cbn [flat_map filter snd].
+  rewrite IH. now destruct (p x).
+Qed.
+
+Lemma SX_lw_some n X sv : canonL X -> In sv (step_settings n X) ->
+  lwS (step_settings n X) (eff0 (snd sv)) = Some (Some sv).
+Proof.
+  intros [Hnd Hk] Hin. apply (@lw_sets_some vset (@snd nat str)); auto.
+  - intros v Hv. apply Hk. now apply SX_in in Hv.
+  - change (map (fun v : vset => eff0 (snd v)) (step_settings n X)) with (map (fun v : nat * str => eff0 (snd v)) (step_settings n X)).
+    rewrite <- (map_map (@snd nat str) eff0), SX_snd. exact Hnd.
+Qed.
+
+Lemma SX_lw_none n X e : canonL X -> (forall t, In t X -> eff0 t <> e) ->
+  lwS (step_settings n X) e = None.
+Proof.
+  intros [Hnd Hk] Hne. apply lw_sets_none. intros v Hv. apply SX_in in Hv. split; [now apply Hk|now apply Hne].
+Qed.
+
+Lemma flat_map_ext_in {A B} (f g : A -> list B) l : (forall x, In x l -> f x = g x) -> flat_map f l = flat_map g l.
+Proof.
+  induction l as [|a l IH]; intros H; [reflexivity|]. cbn [flat_map].
+  rewrite (H a (or_introl eq_refl)), IH by (intros; apply H; now right). reflexivity.
+Qed.
+
+Lemma canonL_filter p L : canonL L -> canonL (filter p L).
+Proof.
+  intros [H1 H2]. split; [now apply nodup_map_filter|]. intros t Ht. apply filter_In in Ht as [Ht _]. now apply H2.
+Qed.
+
+Lemma effect_of_set t : tk t = KSet (eff0 t) -> effect_of t = Some (eff0 t).
+Proof. intros H. rewrite effect_of_tk, H. reflexivity. Qed.
+
+Section CStep.
+Variables (cur : dict vset) (nid : nat) (L Ln : list str).
+Hypothesis Hcur : cur_ok cur.
+Hypothesis HL : RepT cur L.
+Hypothesis HcL : canonL L.
+Hypothesis HcN : canonL Ln.
+Hypothesis HK3 : Ln = filter (fun t => mem t Ln) L ++ news L Ln.
+
+Lemma texts_ok_canon X : canonL X -> Forall text_ok X.
+Proof. intros [_ H]. apply Forall_forall. intros t Ht. left. now apply H. Qed.
+
+(* ---------- shape 2: reset followed by the whole new list ---------- *)
+Section Shape2.
+Let texts := [CH_0] :: Ln.
+Let S2 := step_settings (S nid) Ln.
+Let new := step_new cur nid texts.
+
+Lemma texts2_ok : Forall text_ok texts.
+Proof. constructor; [now right|now apply texts_ok_canon]. Qed.
+
+Lemma new2_lw e : dget new e = match lwS S2 e with Some r => r | None => None end.
+Proof.
+  unfold new, step_new, texts. rewrite step_settings_cons. fold S2.
+  rewrite s2d_lw by apply Hcur. rewrite lw_cons. destruct (lwS S2 e); [reflexivity|].
+  unfold lw_step. cbn [snd]. now rewrite tk_zero.
+Qed.
+
+Lemma new2_some sv : In sv S2 -> dget new (eff0 (snd sv)) = Some sv.
+Proof. intros H. rewrite new2_lw. unfold S2. now rewrite (SX_lw_some _ _ sv HcN H). Qed.
+
+Lemma new2_none e : (forall t, In t Ln -> eff0 t <> e) -> dget new e = None.
+Proof. intros H. rewrite new2_lw. unfold S2. now rewrite (SX_lw_none _ _ e HcN H). Qed.
+
+Lemma shape2 : Lnew cur nid texts L = Ln.
+Proof.
+  unfold Lnew. transitivity (filter (fun t => mem t Ln) L ++ news L Ln); [|symmetry; exact HK3]. f_equal.
+  - apply filter_ext_in. intros t Ht. unfold stillb. fold new.
+    destruct (mem t Ln) eqn:M.
+    + apply mem_In in M. destruct (SX_in_conv (S nid) Ln t M) as (sv & Hsv & Es).
+      rewrite <- Es at 1. fold S2 in Hsv. rewrite (new2_some sv Hsv), Es. apply str_eqb_refl.
+    + apply mem_false in M. destruct (dget (dl Ln) (eff0 t)) as [t'|] eqn:Ed.
+      * destruct (dget_dl_some _ _ _ Ed) as [Ht' Ee]. destruct (SX_in_conv (S nid) Ln t' Ht') as (sv & Hsv & Es).
+        fold S2 in Hsv. rewrite <- Ee, <- Es, (new2_some sv Hsv), Es. apply str_eqb_neq. congruence.
+      * rewrite new2_none; [reflexivity|]. now apply dget_dl_none.
+  - rewrite (to_app_canon cur nid texts L Hcur HL). unfold texts at 2. rewrite step_settings_cons. fold S2.
+    cbn [flat_map]. replace (appsel cur nid texts L (nid, [CH_0])) with (@nil str).
+    2:{ unfold appsel, lastw. cbn [snd]. now rewrite effect_of_tk, tk_zero. }
+    cbn [app]. rewrite (flat_map_ext_in _ (fun sv : vset => if negb (mem (snd sv) L) then [snd sv] else [])).
+    + unfold S2. apply (SX_flat (fun t => negb (mem t L))).
+    + intros sv Hsv. unfold appsel, lastw. fold new. destruct HcN as [_ Hk].
+      rewrite (effect_of_set _ (proj2 (Hk _ (SX_in _ _ _ Hsv)))), (new2_some sv Hsv), Nat.eqb_refl. reflexivity.
+Qed.
+End Shape2.
+
+(* ---------- shape 1: clears of the vanished effects, then the new texts ---------- *)
+Section Shape1.
+Hypothesis Hclr : forall t, In t L -> clr_good (eff0 t).
+Let C := clears L Ln.
+Let N := news L Ln.
+Let texts := C ++ N.
+Let SC := step_settings nid C.
+Let SN := step_settings (nid + length C) N.
+Let new := step_new cur nid texts.
+
+Lemma in_C x : In x C -> exists t c, In t L /\ dget (dl Ln) (eff0 t) = None /\ clear_code (eff0 t) = Some c
+                                      /\ x = decN c /\ tk x = KClr (eff0 t) /\ parsable x = true.
+Proof.
+  unfold C, clears. intros H. apply in_flat_map in H as (t & Ht & Hx).
+  destruct (dget (dl Ln) (eff0 t)) eqn:Ed; [destruct Hx|].
+  destruct (Hclr t Ht) as (c & Hc & Hk & Hn & Hp). rewrite Hc in Hx. destruct Hx as [<-|[]].
+  exists t, c. repeat split; auto. rewrite Hn, parsable_textN by discriminate. exact Hp.
+Qed.
+
+Lemma canon_N : canonL N.
+Proof. unfold N, news. now apply canonL_filter. Qed.
+
+Lemma texts1_ok : Forall text_ok texts.
+Proof.
+  unfold texts. apply Forall_app. split; [|apply texts_ok_canon, canon_N].
+  apply Forall_forall. intros x Hx. left. destruct (in_C x Hx) as (t & c & _ & _ & _ & _ & _ & Hp). exact Hp.
+Qed.
+
+Lemma SC_clr sv : In sv SC -> exists t, In t L /\ dget (dl Ln) (eff0 t) = None /\ tk (snd sv) = KClr (eff0 t).
+Proof.
+  intros H. apply SX_in in H. destruct (in_C _ H) as (t & c & Ht & Hd & _ & _ & Hk & _). eauto.
+Qed.
+
+Lemma lw_SC_gone e : (exists t, In t L /\ eff0 t = e /\ dget (dl Ln) e = None) -> lwS SC e = Some None.
+Proof.
+  intros (t & Ht & Ee & Hd). rewrite lw_clears.
+  2:{ intros v Hv. destruct (SC_clr v Hv) as (t' & _ & _ & Hk). eauto. }
+  replace (existsb _ SC) with true; [reflexivity|]. symmetry. apply existsb_exists.
+  destruct (Hclr t Ht) as (c & Hc & Hk & _).
+  assert (Hin : In (decN c) C).
+  { unfold C, clears. apply in_flat_map. exists t. split; auto. rewrite Ee, Hd. rewrite <- Ee, Hc. now left. }
+  destruct (SX_in_conv nid C _ Hin) as (sv & Hsv & Es). exists sv. split; [exact Hsv|].
+  rewrite Es, Hk, Ee. apply effect_beq_refl.
+Qed.
+
+Lemma lw_SC_kept e : dget (dl Ln) e <> None -> lwS SC e = None.
+Proof.
+  intros Hd. rewrite lw_clears.
+  2:{ intros v Hv. destruct (SC_clr v Hv) as (t' & _ & _ & Hk). eauto. }
+  replace (existsb _ SC) with false; [reflexivity|]. symmetry. apply not_true_iff_false. intros H.
+  apply existsb_exists in H as (sv & Hsv & Hb). destruct (SC_clr sv Hsv) as (t & _ & Hd' & Hk).
+  rewrite Hk in Hb. apply effect_beq_eq in Hb. congruence.
+Qed.
+
+Lemma new1_lw e : dget new e = match lwS SN e with
+                               | Some r => r
+                               | None => match lwS SC e with Some r => r | None => dget cur e end end.
+Proof.
+  unfold new, step_new, texts. rewrite step_settings_app. fold SC SN.
+  rewrite s2d_lw by apply Hcur. rewrite lw_app. destruct (lwS SN e); reflexivity.
+Qed.
+
+Lemma new1_some sv : In sv SN -> dget new (eff0 (snd sv)) = Some sv.
+Proof. intros H. rewrite new1_lw. unfold SN. now rewrite (SX_lw_some _ _ sv canon_N H). Qed.
+
+Lemma N_in t : In t N <-> In t Ln /\ ~ In t L.
+Proof. unfold N, news. rewrite filter_In, negb_true_iff, mem_false. tauto. Qed.
+
+Lemma shape1 : Lnew cur nid texts L = Ln.
+Proof.
+  unfold Lnew. transitivity (filter (fun t => mem t Ln) L ++ news L Ln); [|symmetry; exact HK3]. fold N. f_equal.
+  - apply filter_ext_in. intros t Ht. unfold stillb. fold new. destruct HL as [R1 R2].
+    destruct (R1 t Ht) as (Hk & i & Hg).
+    destruct (mem t Ln) eqn:M.
+    + apply mem_In in M. rewrite new1_lw.
+      unfold SN. rewrite SX_lw_none; [|apply canon_N|].
+      * rewrite lw_SC_kept by (now rewrite (dget_dl_in Ln t HcN M)). rewrite Hg. cbn [snd]. apply str_eqb_refl.
+      * intros t' Ht' E. apply N_in in Ht' as [H1 H2]. apply H2.
+        now rewrite (canonL_eff_inj Ln t' t HcN H1 M E).
+    + apply mem_false in M. destruct (dget (dl Ln) (eff0 t)) as [t'|] eqn:Ed.
+      * destruct (dget_dl_some _ _ _ Ed) as [Ht' Ee].
+        assert (HN : In t' N).
+        { apply N_in. split; auto. intros HtL. apply M. now rewrite <- (canonL_eff_inj L t' t HcL HtL Ht Ee). }
+        destruct (SX_in_conv (nid + length C) N t' HN) as (sv & Hsv & Es). fold SN in Hsv.
+        rewrite <- Ee, <- Es, (new1_some sv Hsv), Es. apply str_eqb_neq. congruence.
+      * rewrite new1_lw. unfold SN. rewrite SX_lw_none; [|apply canon_N|].
+        -- rewrite lw_SC_gone; [reflexivity|]. now exists t.
+        -- intros t' Ht'. apply N_in in Ht' as [H1 _]. now apply (dget_dl_none _ _ Ed).
+  - rewrite (to_app_canon cur nid texts L Hcur HL). unfold texts at 2. rewrite step_settings_app. fold SC SN.
+    rewrite flat_map_app.
+    rewrite (flat_map_ext_in (appsel cur nid texts L) (fun _ => []) SC).
+    + replace (flat_map (fun _ : vset => @nil str) SC) with (@nil str) by (induction SC; auto).
+      cbn [app]. rewrite (flat_map_ext_in _ (fun sv : vset => if (fun _ => true) (snd sv) then [snd sv] else [])).
+      * unfold SN. rewrite (SX_flat (fun _ => true)). apply filter_all. reflexivity.
+      * intros sv Hsv. unfold appsel, lastw. fold new. destruct canon_N as [_ Hk].
+        pose proof (SX_in _ _ _ Hsv) as HinN.
+        rewrite (effect_of_set _ (proj2 (Hk _ HinN))), (new1_some sv Hsv), Nat.eqb_refl.
+        apply N_in in HinN as [_ HnL]. apply mem_false in HnL. now rewrite HnL.
+    + intros sv Hsv. unfold appsel, lastw. fold new. destruct (SC_clr sv Hsv) as (t & Ht & Hd & Hk).
+      rewrite effect_of_tk, Hk. rewrite new1_lw. unfold SN. rewrite SX_lw_none; [|apply canon_N|].
+      * rewrite lw_SC_gone; [reflexivity|]. now exists t.
+      * intros t' Ht'. apply N_in in Ht' as [H1 _]. now apply (dget_dl_none _ _ Hd).
+Qed.
+End Shape1.
+End CStep.
+
+(* ---------- the generated clear table ---------- *)
+Lemma clr_good_all e : clr_good e.
+Proof. destruct e; eexists; (split; [reflexivity|]); repeat split; vm_compute; reflexivity. Qed.
+
+Lemma nfL_groups X : nfL X -> exists gs, X = map textN gs /\ Forall goodg gs.
+Proof.
+  induction X as [|t X IH]; intros H; [exists []; split; [reflexivity|constructor]|].
+  destruct (H t (or_introl eq_refl)) as (g & -> & Hg). destruct IH as (gs & -> & Hgs); [intros x Hx; apply H; now right|].
+  exists (g :: gs). split; [reflexivity|]. constructor; [now right|exact Hgs].
+Qed.
+
+Lemma nfL_app a b : nfL a -> nfL b -> nfL (a ++ b).
+Proof. intros Ha Hb t Ht. apply in_app_or in Ht as [Ht|Ht]; auto. Qed.
+
+Lemma nfL_clears L Ln : nfL (clears L Ln).
+Proof.
+  intros x Hx. unfold clears in Hx. apply in_flat_map in Hx as (t & _ & Hx).
+  destruct (dget (dl Ln) (eff0 t)); [destruct Hx|].
+  destruct (clr_good_all (eff0 t)) as (c & Hc & _ & Hn & Hp). rewrite Hc in Hx. destruct Hx as [<-|[]]. eauto.
+Qed.
+
+Lemma nfL_news L Ln : nfL Ln -> nfL (news L Ln).
+Proof. intros H t Ht. apply filter_In in Ht as [Ht _]. now apply H. Qed.
+
+Lemma numeric_jn_nf X : nfL X -> numeric (jn X) = true.
+Proof.
+  intros H. apply numeric_join. apply Forall_forall. intros t Ht. destruct (H t Ht) as (g & -> & Hg).
+  rewrite params_of_textN; [discriminate|]. intros ->. discriminate.
+Qed.
+
+Lemma jn_nonnil X : nfL X -> X <> [] -> jn X <> [].
+Proof.
+  intros H Hne E. apply Hne. apply (join_nil X); [|exact E]. apply Forall_forall. intros t Ht.
+  destruct (H t Ht) as (g & -> & Hg). intros E'.
+  assert (Hp : params_of (textN g) = Some g) by (apply params_of_textN; intros ->; discriminate).
+  rewrite E' in Hp. cbn in Hp. inversion Hp; subst. discriminate.
+Qed.
+
+Section CMain.
+Variables (cur : dict vset) (nid : nat) (L Ln : list str).
+Hypothesis Hcur : cur_ok cur.
+Hypothesis HL : RepT cur L.
+Hypothesis HcL : canonL L.
+Hypothesis HcN : canonL Ln.
+Hypothesis HnN : nfL Ln.
+Hypothesis HK3 : Ln = filter (fun t => mem t Ln) L ++ news L Ln.
+
+Theorem C_main b : emc L Ln = Some b ->
+  numeric b = true /\ exists texts, pgs_str b false = OK texts /\ Forall text_ok texts /\ Lnew cur nid texts L = Ln.
+Proof.
+  unfold emc, em. cbv zeta. unfold dcodes.
+  set (C := clears L Ln). set (N := news L Ln).
+  assert (HnC : nfL (C ++ N)) by (apply nfL_app; [apply nfL_clears|now apply nfL_news]).
+  assert (Hshape1 : C ++ N <> [] -> numeric (jn (C ++ N)) = true /\ exists texts, pgs_str (jn (C ++ N)) false = OK texts
+                        /\ Forall text_ok texts /\ Lnew cur nid texts L = Ln).
+  { intros Hne. split; [now apply numeric_jn_nf|]. destruct (nfL_groups _ HnC) as (gs & Eg & Hgs). exists (C ++ N). split.
+    - rewrite Eg. apply pgs_join; [|exact Hgs]. intros ->. now rewrite Eg in Hne.
+    - split; [apply texts1_ok; auto; intros; apply clr_good_all|].
+      apply shape1; auto. intros; apply clr_good_all. }
+  destruct (is_nil (jn (C ++ N))) eqn:En; [discriminate|].
+  assert (Hne : C ++ N <> []) by (intros E; rewrite E in En; discriminate).
+  destruct (length (jn (C ++ N)) <? length _) eqn:Elt.
+  - intros H. inversion H; subst b. now apply Hshape1.
+  - intros H. inversion H as [Hb]. clear H. destruct (is_nil L) eqn:EnL.
+    + (* nothing was active: the full form is the difference *)
+      assert (EL : L = []) by (clear -EnL; destruct L; [reflexivity|discriminate]).
+      cbn [negb andb].
+      assert (EC : C = []) by (unfold C, clears; now rewrite EL).
+      assert (EN : N = Ln). { unfold N, news. rewrite EL. apply filter_all. reflexivity. }
+      rewrite EC in Hshape1, Hne. cbn [app] in Hshape1, Hne. rewrite EN in Hshape1, Hne. now apply Hshape1.
+    + cbn [negb andb]. destruct (is_nil Ln) eqn:EnN.
+      * assert (ELn : Ln = []) by (clear -EnN; destruct Ln; [reflexivity|discriminate]).
+        cbn [negb]. replace (jn Ln) with (@nil char) by (now rewrite ELn). split; [reflexivity|]. exists ([CH_0] :: Ln). split; [now rewrite ELn|].
+        split; [now apply texts2_ok|now apply shape2].
+      * cbn [negb].
+        split.
+        { rewrite jn_cons by (intros E; rewrite E in EnN; discriminate). cbn [app].
+          apply numeric_zero_prefix. now apply numeric_jn_nf. }
+        exists ([CH_0] :: Ln). split; [|split; [now apply texts2_ok|now apply shape2]].
+        assert (Eg : exists gs, [CH_0] :: Ln = map textN gs /\ Forall goodg gs).
+        { destruct (nfL_groups _ HnN) as (gs & Eg & Hgs). exists ([0%N] :: gs). split.
+          - cbn [map]. rewrite <- Eg. reflexivity.
+          - constructor; [now left|exact Hgs]. }
+        destruct Eg as (gs & Eg & Hgs). rewrite Eg. apply pgs_join; [|exact Hgs]. intros ->. discriminate.
+Qed.
+
+Lemma emc_none : emc L Ln = None -> Ln = L.
+Proof.
+  unfold emc, em. cbv zeta. unfold dcodes. set (C := clears L Ln). set (N := news L Ln).
+  assert (HnC : nfL (C ++ N)) by (apply nfL_app; [apply nfL_clears|now apply nfL_news]).
+  destruct (is_nil (jn (C ++ N))) eqn:En; [|discriminate]. intros _.
+  assert (E : C ++ N = []).
+  { destruct (C ++ N) as [|a r] eqn:E; [reflexivity|]. exfalso. apply (jn_nonnil _ HnC); [discriminate|].
+    destruct (jn (a :: r)); [reflexivity|discriminate]. }
+  apply app_eq_nil in E as [EC EN]. rewrite HK3. fold N. rewrite EN, app_nil_r. apply filter_all.
+  intros t Ht. apply mem_In.
+  destruct (dget (dl Ln) (eff0 t)) as [t'|] eqn:Ed.
+  - destruct (dget_dl_some _ _ _ Ed) as [Ht' Ee].
+    assert (HtL : In t' L). { rewrite HK3 in Ht'. fold N in Ht'. rewrite EN, app_nil_r in Ht'. now apply filter_In in Ht' as [H _]. }
+    now rewrite <- (canonL_eff_inj L t' t HcL HtL Ht Ee).
+  - exfalso. assert (Hin : In (match clear_code (eff0 t) with Some c => decN c | None => [] end) C).
+    { unfold C, clears. apply in_flat_map. exists t. split; auto. rewrite Ed.
+      destruct (clr_good_all (eff0 t)) as (c & Hc & _). rewrite Hc. now left. }
+    rewrite EC in Hin. destruct Hin.
+Qed.
+End CMain.
+
+(* ====================================================================================== *)
+(* (T2) parsing the canonical rendering reproduces the lists of active texts                *)
+(* ====================================================================================== *)
+Fixpoint ptoks (s : str) (k : nat) (Lp : list str) (A : nat -> list str) : list otok :=
+  match s with
+  | [] => if is_nil Lp then [] else [OSgr []]
+  | ch :: s' => (match emc Lp (A k) with Some b => [OSgr b] | None => [] end)
+                ++ OText [ch] :: ptoks s' (S k) (A k) A
+  end.
+
+Lemma ptoks_bytes A : forall s k Lp, bytes_of (ptoks s k Lp A) = prender s k Lp A.
+Proof.
+  induction s as [|ch s IH]; intros k Lp; cbn [ptoks prender].
+  - now destruct (is_nil Lp).
+  - rewrite bytes_of_app. cbn [bytes_of flat_map bytes_of_tok]. fold (bytes_of (ptoks s (S k) (A k) A)).
+    rewrite IH. destruct (emc Lp (A k)); cbn [bytes_of flat_map bytes_of_tok emit app]; [|reflexivity].
+    now rewrite app_nil_r.
+Qed.
+
+Lemma ptoks_text A : forall s k Lp, txt_of (ptoks s k Lp A) = s.
+Proof.
+  induction s as [|ch s IH]; intros k Lp; cbn [ptoks].
+  - now destruct (is_nil Lp).
+  - unfold txt_of. rewrite flat_map_app. cbn [flat_map]. fold (txt_of (ptoks s (S k) (A k) A)). rewrite IH.
+    now destruct (emc Lp (A k)).
+Qed.
+
+Definition Ap (A : nat -> list str) (k : nat) : list str := match k with 0 => [] | S j => A j end.
+Definition K3 (Lp Ln : list str) : Prop := Ln = filter (fun t => mem t Ln) Lp ++ news Lp Ln.
+
+Lemma seqs_flat_chars (s : str) l pos : seqs_flat (map TChar s ++ l) pos = seqs_flat l (pos + length s).
+Proof.
+  revert pos. induction s as [|c s IH]; intros pos; cbn [map app seqs_flat length]; [now rewrite Nat.add_0_r|].
+  rewrite IH. f_equal. lia.
+Qed.
+
+Section Reparse.
+Variable text : str.
+Variable A : nat -> list str.
+Hypothesis HAc : forall k, canonL (A k).
+Hypothesis HAn : forall k, nfL (A k).
+Hypothesis HAk : forall k, k < length text -> K3 (Ap A k) (A k).
+Hypothesis Hesc : no_esc text = true.
+
+Lemma ptoks_ok : forall s k Lp, no_esc s = true -> canonL Lp -> nfL Lp ->
+  (forall j, k <= j -> canonL (A j) /\ nfL (A j)) ->
+  (forall j, k <= j < k + length s -> K3 (Ap A j) (A j)) -> Lp = Ap A k ->
+  Forall tok_ok (ptoks s k Lp A) /\ Forall tok_num (ptoks s k Lp A).
+Proof.
+  induction s as [|ch s IH]; intros k Lp He Hc Hn Hall Hk3 ELp; cbn [ptoks].
+  - destruct (is_nil Lp); split; repeat constructor.
+  - unfold RenderProofs.no_esc in He. cbn [forallb] in He. apply andb_true_iff in He as [He1 He2].
+    destruct (IH (S k) (A k) He2 (proj1 (Hall k (le_n _))) (proj2 (Hall k (le_n _)))) as [I1 I2].
+    { intros j Hj. apply Hall. lia. }
+    { intros j Hj. apply Hk3. cbn [length]. lia. }
+    { reflexivity. }
+    assert (Hb : forall b, emc Lp (A k) = Some b -> numeric b = true).
+    { intros b Eb.
+      (* the shapes of b do not depend on the dictionary: use C_main with an empty one when possible *)
+      unfold emc, em in Eb. cbv zeta in Eb.
+      assert (HnD : nfL (dcodes Lp (A k))) by (apply nfL_app; [apply nfL_clears|apply nfL_news, Hall; lia]).
+      destruct (is_nil (jn (dcodes Lp (A k)))); [discriminate|]. inversion Eb as [Eb']. clear Eb.
+      destruct (_ <? _); [now apply numeric_jn_nf|].
+      destruct (negb (is_nil Lp) && negb (is_nil (A k))) eqn:E; [|apply numeric_jn_nf, Hall; lia].
+      apply andb_true_iff in E as [_ E]. apply negb_true_iff in E.
+      rewrite jn_cons by (intros E'; rewrite E' in E; discriminate). cbn [app].
+      apply numeric_zero_prefix. apply numeric_jn_nf, Hall. lia. }
+    split; apply Forall_app; split; try (constructor; [|assumption]).
+    + destruct (emc Lp (A k)) as [b|]; [|constructor]. repeat constructor. cbn [tok_ok].
+      apply dsc_nonfinal. exact (Hb b eq_refl).
+    + cbn [tok_ok]. unfold RenderProofs.no_esc. cbn [forallb]. now rewrite He1.
+    + destruct (emc Lp (A k)) as [b|]; [|constructor]. repeat constructor. cbn [tok_num]. exact (Hb b eq_refl).
+    + exact I.
+Qed.
+
+Lemma reparse_loop : forall s k Lp sx cur nid,
+  PInv sx cur k nid -> base sx = text -> length text = k + length s ->
+  (forall j, k <= j < length text -> AT sx j = Lp) -> Lp = Ap A k ->
+  let r := parse_fold text (seqs_flat (toks_of (ptoks s k Lp A)) k) (sx, cur, nid) in
+  forall j, j < length text -> AT (fst (fst r)) j = if j <? k then AT sx j else A j.
+Proof.
+  induction s as [|ch s IH]; intros k Lp sx cur nid Hinv Hb Hlen HLp ELp r j Hj.
+  - cbn [length] in Hlen. replace (j <? k) with true by (symmetry; apply Nat.ltb_lt; lia).
+    unfold r. cbn [ptoks]. destruct (is_nil Lp); [reflexivity|].
+    cbn [toks_of flat_map tok_of app seqs_flat]. rewrite parse_fold_cons. cbn [fst].
+    replace (length text <=? k) with true by (symmetry; apply Nat.leb_le; lia). reflexivity.
+  - cbn [length] in Hlen.
+    assert (Hk : k < length text) by lia.
+    assert (Hcur : cur_ok cur) by apply Hinv.
+    assert (HRep : RepT cur Lp).
+    { rewrite <- (HLp k) by lia. apply Rep_RepT. destruct Hinv as (_ & _ & _ & Hrep & _). apply Hrep. rewrite Hb. lia. }
+    assert (HcLp : canonL Lp) by (rewrite ELp; destruct k; [apply canonL_nil|apply HAc]).
+    pose proof (HAk k Hk) as HK. rewrite <- ELp in HK.
+    unfold r. cbn [ptoks]. unfold toks_of. rewrite flat_map_app. cbn [flat_map tok_of map]. fold (toks_of (ptoks s (S k) (A k) A)).
+    destruct (emc Lp (A k)) as [b|] eqn:Eb.
+    + cbn [flat_map tok_of app seqs_flat]. rewrite parse_fold_cons. cbn [fst snd cs_body].
+      replace (length text <=? k) with false by (symmetry; apply Nat.leb_gt; lia).
+      destruct (C_main cur nid Lp (A k) Hcur HRep HcLp (HAc k) (HAn k) HK b Eb) as (Hnum & texts & Hp & Htx & HLn).
+      pose proof (parse_step_inv sx cur k b nid Hinv ltac:(now rewrite Hb)) as Hst. cbv zeta in Hst.
+      pose proof (parse_step_exact sx cur k b nid texts Hinv ltac:(now rewrite Hb) Hp) as Hex.
+      destruct (parse_step sx cur k b nid) as [[s1 cur1] nid1]. cbn [fst snd] in Hst, Hex.
+      destruct Hst as (Hinv1 & Hn1 & Hb1 & Hlo1).
+      assert (Hnew : forall i, k <= i < length text -> AT s1 i = A k).
+      { intros i Hi. rewrite Hex by (rewrite Hb; exact Hi). rewrite (HLp i Hi).
+        rewrite (keep_still cur nid texts Lp Hcur HRep). exact HLn. }
+      cbn [seqs_flat].
+      rewrite (IH (S k) (A k) s1 cur1 nid1); try lia; auto.
+      * destruct (j <? S k) eqn:E1; destruct (j <? k) eqn:E2; try reflexivity.
+        -- unfold AT. rewrite Hlo1; [reflexivity|]. now apply Nat.ltb_lt.
+        -- apply Nat.ltb_lt in E1. apply Nat.ltb_ge in E2. assert (j = k) by lia. subst j. apply Hnew. lia.
+        -- apply Nat.ltb_ge in E1. apply Nat.ltb_lt in E2. lia.
+      * eapply PInv_mono; eauto.
+      * congruence.
+      * intros i Hi. apply Hnew. lia.
+    + cbn [app]. pose proof (emc_none Lp (A k) HcLp (HAn k) HK Eb) as EA.
+      cbn [seqs_flat].
+      rewrite (IH (S k) (A k) sx cur nid); try lia; auto.
+      * destruct (j <? S k) eqn:E1; destruct (j <? k) eqn:E2; try reflexivity.
+        -- apply Nat.ltb_lt in E1. apply Nat.ltb_ge in E2. assert (j = k) by lia. subst j. rewrite EA. apply HLp. lia.
+        -- apply Nat.ltb_ge in E1. apply Nat.ltb_lt in E2. lia.
+      * eapply PInv_mono; eauto.
+      * intros i Hi. rewrite EA. apply HLp. lia.
+Qed.
+End Reparse.
+
+(* ====================================================================================== *)
+(* The rendering of a canonical value is a fixed point                                      *)
+(* ====================================================================================== *)
+Definition canonical (c : astr) : Prop :=
+  rm_wf c /\ adds_parsable (tbl c) /\ no_esc (base c) = true
+  /\ (forall k, canonL (AT c k)) /\ (forall k, nfL (AT c k))
+  /\ (forall k, k < length (base c) -> K3 (Ap (AT c) k) (AT c k)).
+
+Lemma AT_beyond c k : rm_wf c -> length (base c) <= k -> AT c k = [].
+Proof.
+  intros (Hs & _ & _ & Hkeys & Hfin) Hk. unfold AT. rewrite active_beyond; auto.
+  - now rewrite Hfin.
+  - intros kp Hin. specialize (Hkeys kp Hin). lia.
+Qed.
+
+Lemma prender_ext A A' : (forall j, A j = A' j) -> forall s k L, prender s k L A = prender s k L A'.
+Proof. intros H. induction s as [|ch s IH]; intros k L; cbn [prender]; [reflexivity|]. now rewrite H, IH. Qed.
+
+Lemma canonical_render c : canonical c -> render c = prender (base c) 0 [] (AT c).
+Proof.
+  intros ((Hs & _ & Hst & _) & Hp & _ & Hc & _). destruct c as [s tb]. cbn [base tbl] in *.
+  unfold render. apply (render_prender s tb Hs Hst Hc). now apply adds_parsable_tbl.
+Qed.
+
+Theorem canonical_fixed_point c n : canonical c ->
+  let c' := fst (parse (render c) n) in
+  render c' = render c /\ canonical c' /\ base c' = base c /\ forall k, AT c' k = AT c k.
+Proof.
+  intros Hcan c'. pose proof Hcan as (Hwf & Hp & Hesc & Hc & Hn & Hk3).
+  set (text := base c). set (A := AT c).
+  assert (Hr : render c = bytes_of (ptoks text 0 [] A)) by (rewrite ptoks_bytes; now apply canonical_render).
+  destruct (ptoks_ok text A Hc Hn Hk3 text 0 [] Hesc canonL_nil ltac:(intros t []) ltac:(intros j _; split; [apply Hc|apply Hn])
+              ltac:(intros j Hj; apply Hk3; unfold text in Hj; cbn [plus] in Hj; lia) eq_refl) as [Hok Hnum].
+  assert (Htk : tkz (render c) = toks_of (ptoks text 0 [] A)) by (rewrite Hr; now apply tokenize_bytes).
+  assert (Hbase : base c' = text).
+  { unfold c'. rewrite parse_base, Htk, unformatted_toks_of. apply ptoks_text. }
+  assert (HAT : forall k, AT c' k = A k).
+  { intros k. destruct (lt_dec k (length text)) as [Hlt|Hge].
+    - unfold c'. rewrite parse_eq. cbv zeta. cbn [fst]. rewrite Htk, unformatted_toks_of, ptoks_text.
+      pose proof (reparse_loop text A Hc Hn Hk3 text 0 [] (mkA text []) [] n (PInv_init _ _) eq_refl eq_refl
+                 ltac:(intros j _; reflexivity) eq_refl k Hlt) as Hrp.
+      cbv zeta in Hrp. etransitivity; [exact Hrp|reflexivity].
+    - unfold A. rewrite (AT_beyond c k Hwf) by (fold text; lia).
+      apply AT_beyond; [apply parse_wf|]. rewrite Hbase. lia. }
+  assert (Hcan' : canonical c').
+  { split; [apply parse_wf|]. split; [apply parse_adds_parsable|]. split; [now rewrite Hbase|].
+    split; [intros k; rewrite HAT; apply Hc|]. split; [intros k; rewrite HAT; apply Hn|].
+    intros k Hk. rewrite Hbase in Hk. rewrite HAT. replace (Ap (AT c') k) with (Ap A k).
+    - now apply Hk3.
+    - destruct k; [reflexivity|]. cbn [Ap]. now rewrite HAT. }
+  split; [|split; [exact Hcan'|split; [exact Hbase|exact HAT]]].
+  rewrite (canonical_render c' Hcan'), (canonical_render c Hcan), Hbase. fold text. now apply prender_ext.
+Qed.
+
+(* ====================================================================================== *)
+(* (T1) parsing a string with at most one sequence per text position gives a canonical value *)
+(* ====================================================================================== *)
+Fixpoint sep (may : bool) (toks : list otok) : Prop :=
+  match toks with
+  | [] => True
+  | OText [] :: r => sep may r
+  | OText (_ :: _) :: r => sep true r
+  | OSgr _ :: r => may = true /\ sep false r
+  end.
+
+Lemma K3_refl L : canonL L -> K3 L L.
+Proof.
+  intros Hc. unfold K3, news. rewrite filter_all, filter_none; [now rewrite app_nil_r| |].
+  - intros t Ht. apply negb_false_iff. now apply mem_In.
+  - intros t Ht. now apply mem_In.
+Qed.
+
+Lemma parsable_nf g : parsable (textN g) = true -> parsableN g = true.
+Proof. intros H. destruct g as [|v r]; [vm_compute in H; discriminate|]. now rewrite <- parsable_textN. Qed.
+
+Lemma numeric_texts b : numeric b = true -> exists gs, pgs_str b false = OK (map textN gs).
+Proof. intros H. rewrite (pgs_str_numeric b H). eauto. Qed.
+
+Definition TI (text : str) (sx : astr) (cur : dict vset) (pos nid : nat) (may : bool) : Prop :=
+  PInv sx cur pos nid /\ base sx = text
+  /\ (forall k, canonL (AT sx k)) /\ (forall k, nfL (AT sx k))
+  /\ (forall k, k < pos -> k < length text -> K3 (Ap (AT sx) k) (AT sx k))
+  /\ (pos < length text -> (may = true -> AT sx pos = Ap (AT sx) pos)
+                           /\ (may = false -> K3 (Ap (AT sx) pos) (AT sx pos))).
+
+Lemma AT_const sx cur pos nid k : PInv sx cur pos nid -> pos <= k < length (base sx) -> AT sx k = AT sx pos.
+Proof. intros H Hk. unfold AT. now rewrite (PInv_const sx cur pos nid k H Hk). Qed.
+
+Lemma TI_advance text sx cur pos nid may n : TI text sx cur pos nid may -> 0 < n -> pos + n <= length text ->
+  TI text sx cur (pos + n) nid true.
+Proof.
+  intros (Hinv & Hb & Hc & Hn & Hk & Hp) Hn0 Hle. split; [eapply PInv_mono; eauto; lia|]. split; [exact Hb|].
+  split; [exact Hc|]. split; [exact Hn|]. split.
+  - intros k Hk1 Hk2. destruct (lt_dec k pos) as [Hl|Hl]; [now apply Hk|].
+    destruct (Nat.eq_dec k pos) as [->|Hne].
+    + destruct (Hp ltac:(lia)) as [Ht Hf]. destruct may; [|now apply Hf]. rewrite <- (Ht eq_refl). apply K3_refl, Hc.
+    + destruct k as [|k']; [lia|]. cbn [Ap].
+      rewrite (AT_const sx cur pos nid (S k') Hinv) by (rewrite Hb; lia).
+      rewrite (AT_const sx cur pos nid k' Hinv) by (rewrite Hb; lia). apply K3_refl, Hc.
+  - intros Hlt. split; [|discriminate]. intros _. destruct (pos + n) as [|m] eqn:E; [lia|]. cbn [Ap].
+    rewrite (AT_const sx cur pos nid (S m) Hinv) by (rewrite Hb; lia).
+    rewrite (AT_const sx cur pos nid m Hinv) by (rewrite Hb; lia). reflexivity.
+Qed.
+
+Lemma TI_step text sx cur pos nid b : TI text sx cur pos nid true -> pos < length text -> numeric b = true ->
+  let r := parse_step sx cur pos b nid in TI text (fst (fst r)) (snd (fst r)) pos (snd r) false.
+Proof.
+  intros (Hinv & Hb & Hc & Hn & Hk & Hp) Hlt Hnum r.
+  destruct (numeric_texts b Hnum) as (gs & Hpgs). pose proof (pgs_str_texts b _ Hpgs) as Htx.
+  pose proof (parse_step_inv sx cur pos b nid Hinv ltac:(now rewrite Hb)) as Hst. cbv zeta in Hst.
+  pose proof (parse_step_exact sx cur pos b nid _ Hinv ltac:(now rewrite Hb) Hpgs) as Hex.
+  unfold r. destruct (parse_step sx cur pos b nid) as [[s1 cur1] nid1]. cbn [fst snd] in *.
+  destruct Hst as (Hinv1 & Hn1 & Hb1 & Hlo1).
+  assert (Hcur : cur_ok cur) by apply Hinv.
+  set (L := AT sx pos).
+  assert (HRep : RepT cur L).
+  { apply Rep_RepT. destruct Hinv as (_ & _ & _ & Hrep & _). apply Hrep. rewrite Hb. lia. }
+  assert (Hnew : forall k, pos <= k < length text -> AT s1 k = Lnew cur nid (map textN gs) L).
+  { intros k Hk1. rewrite Hex by (rewrite Hb; exact Hk1). rewrite (AT_const sx cur pos nid k Hinv) by (rewrite Hb; exact Hk1).
+    fold L. now rewrite (keep_still cur nid _ L Hcur HRep). }
+  assert (Hold : forall k, k < pos -> AT s1 k = AT sx k) by (intros k Hk1; unfold AT; rewrite Hlo1 by exact Hk1; reflexivity).
+  assert (Hwf1 : rm_wf s1) by apply Hinv1.
+  assert (HcN : canonL (Lnew cur nid (map textN gs) L)) by (apply Lnew_canon; auto; apply Hc).
+  assert (HnN : nfL (Lnew cur nid (map textN gs) L)).
+  { intros t Ht. unfold Lnew in Ht. apply in_app_or in Ht as [Ht|Ht].
+    - apply filter_In in Ht as [Ht _]. now apply (Hn pos).
+    - destruct (in_to_app cur nid _ L Hcur Htx HRep t Ht) as (_ & sv & Hsv & Es & _ & _ & Hpar).
+      apply SX_in in Hsv. rewrite Es in Hsv. apply in_map_iff in Hsv as (g & <- & _). exists g. split; auto.
+      now apply parsable_nf. }
+  assert (HAp : forall k, k <= pos -> Ap (AT s1) k = Ap (AT sx) k).
+  { intros [|k'] Hk1; [reflexivity|]. cbn [Ap]. apply Hold. lia. }
+  split; [exact Hinv1|]. split; [congruence|]. split; [|split; [|split]].
+  - intros k. destruct (lt_dec k pos) as [H1|H1]; [rewrite Hold by exact H1; apply Hc|].
+    destruct (lt_dec k (length text)) as [H2|H2]; [rewrite Hnew by lia; exact HcN|].
+    rewrite AT_beyond; [apply canonL_nil|exact Hwf1|]. rewrite Hb1, Hb. lia.
+  - intros k. destruct (lt_dec k pos) as [H1|H1]; [rewrite Hold by exact H1; apply Hn|].
+    destruct (lt_dec k (length text)) as [H2|H2]; [rewrite Hnew by lia; exact HnN|].
+    rewrite AT_beyond; [intros t []|exact Hwf1|]. rewrite Hb1, Hb. lia.
+  - intros k H1 H2. rewrite HAp by lia. rewrite Hold by exact H1. now apply Hk.
+  - intros _. split; [discriminate|]. intros _. rewrite HAp by lia. rewrite Hnew by lia.
+    destruct (Hp Hlt) as [Ht _]. rewrite <- (Ht eq_refl). fold L. unfold K3. now apply Lnew_K3.
+Qed.
+
+Lemma parse_sep_loop text : forall toks pos sx cur nid may,
+  TI text sx cur pos nid may -> sep may toks -> Forall tok_num toks -> length text = pos + length (txt_of toks) ->
+  let s' := fst (fst (parse_fold text (seqs_flat (toks_of toks) pos) (sx, cur, nid))) in
+  (forall k, canonL (AT s' k)) /\ (forall k, nfL (AT s' k))
+  /\ (forall k, k < length text -> K3 (Ap (AT s') k) (AT s' k)).
+Proof.
+  induction toks as [|[s|b] toks IH]; intros pos sx cur nid may HTI Hsep Hnum Hlen.
+  - cbn [txt_of flat_map length] in Hlen. destruct HTI as (_ & _ & Hc & Hn & Hk & _). cbn.
+    split; [exact Hc|]. split; [exact Hn|]. intros k Hk1. apply Hk; lia.
+  - inversion Hnum as [|? ? _ Hnum']; subst. unfold toks_of. cbn [flat_map tok_of]. fold (toks_of toks).
+    rewrite seqs_flat_chars. unfold txt_of in Hlen. cbn [flat_map] in Hlen. fold (txt_of toks) in Hlen.
+    rewrite app_length in Hlen. destruct s as [|c s].
+    + cbn [length] in *. rewrite Nat.add_0_r. apply (IH pos sx cur nid may); auto.
+    + apply (IH (pos + length (c :: s)) sx cur nid true); auto; [|lia].
+      apply (TI_advance text sx cur pos nid may); auto; cbn [length] in *; lia.
+  - inversion Hnum as [|? ? Hb Hnum']; subst. cbn [tok_num] in Hb. destruct Hsep as [-> Hsep].
+    unfold toks_of. cbn [flat_map tok_of app seqs_flat]. fold (toks_of toks). rewrite parse_fold_cons. cbn [fst snd cs_body].
+    unfold txt_of in Hlen. cbn [flat_map app] in Hlen. fold (txt_of toks) in Hlen.
+    destruct (length text <=? pos) eqn:E.
+    + apply Nat.leb_le in E. apply (IH pos sx cur nid false); auto.
+      destruct HTI as (H1 & H2 & H3 & H4 & H5 & H6).
+      split; [exact H1|]. split; [exact H2|]. split; [exact H3|]. split; [exact H4|]. split; [exact H5|]. intros; lia.
+    + apply Nat.leb_gt in E. pose proof (TI_step text sx cur pos nid b HTI E Hb) as H. cbv zeta in H.
+      destruct (parse_step sx cur pos b nid) as [[s1 cur1] nid1]. cbn [fst snd] in H.
+      apply (IH pos s1 cur1 nid1 false); auto.
+Qed.
+
+Lemma no_esc_txt_of l : Forall tok_ok l -> no_esc (txt_of l) = true.
+Proof.
+  induction 1 as [|k l Hk Hl IH]; [reflexivity|].
+  change (txt_of (k :: l)) with ((match k with OText s => s | OSgr _ => [] end) ++ txt_of l).
+  unfold RenderProofs.no_esc in *. rewrite forallb_app. apply andb_true_iff. split; [|exact IH]. destruct k; [exact Hk|reflexivity].
+Qed.
+
+Theorem parse_canonical toks nid : Forall tok_ok toks -> Forall tok_num toks -> sep true toks ->
+  canonical (fst (parse (bytes_of toks) nid)) /\ base (fst (parse (bytes_of toks) nid)) = txt_of toks.
+Proof.
+  intros Hok Hnum Hsep.
+  assert (Htk : tkz (bytes_of toks) = toks_of toks) by now apply tokenize_bytes.
+  assert (Hbase : base (fst (parse (bytes_of toks) nid)) = txt_of toks).
+  { rewrite parse_base, Htk. apply unformatted_toks_of. }
+  split; [|exact Hbase]. split; [apply parse_wf|]. split; [apply parse_adds_parsable|]. split.
+  { rewrite Hbase. now apply no_esc_txt_of. }
+  rewrite Hbase. rewrite parse_eq. cbv zeta. cbn [fst]. rewrite Htk, unformatted_toks_of.
+  apply (parse_sep_loop (txt_of toks) toks 0 (mkA (txt_of toks) []) [] nid true); auto.
+  split; [apply PInv_init|]. split; [reflexivity|]. split; [intros k; apply canonL_nil|]. split; [intros k t []|].
+  split; [intros k Hk; lia|]. intros _. split; [reflexivity|discriminate].
+Qed.
+
+(* ====================================================================================== *)
+(* (Sep) a rendering has at most one sequence per text position                             *)
+(* ====================================================================================== *)
+Fixpoint sepe (may : bool) (toks : list otok) : option bool :=
+  match toks with
+  | [] => Some may
+  | OText [] :: r => sepe may r
+  | OText (_ :: _) :: r => sepe true r
+  | OSgr _ :: r => if may then sepe false r else None
+  end.
+
+Lemma sep_sepe toks : forall may, sep may toks <-> sepe may toks <> None.
+Proof.
+  induction toks as [|[[|c s]|b] toks IH]; intros may; cbn [sep sepe]; try apply IH.
+  - split; [discriminate|auto].
+  - destruct may; [rewrite IH; tauto|]. split; [intros [H _]; discriminate|congruence].
+Qed.
+
+Lemma sepe_app a : forall may b, sepe may (a ++ b) = match sepe may a with Some m => sepe m b | None => None end.
+Proof.
+  induction a as [|[[|c s]|x] a IH]; intros may b; cbn [app sepe]; auto. destruct may; auto.
+Qed.
+
+Lemma sepe_text may x : x <> [] -> sepe may [OText x] = Some true.
+Proof. destruct x; [congruence|reflexivity]. Qed.
+
+Lemma slice_nonnil (s : str) a b : a < b -> b <= length s -> str_slice s a b <> [].
+Proof. intros H1 H2 E. pose proof (str_slice_length s a b H2) as Hl. rewrite E in Hl. cbn in Hl. lia. Qed.
+
+Lemma render_point_shape s opt rs st idx p cur :
+  exists e, r_out (render_point s opt rs st idx p cur)
+            = r_out st ++ (if r_first st && (0 <? idx) && rs then [OSgr []] else [])
+              ++ (if is_nil (str_slice s (r_last st) idx) then [] else [OText (str_slice s (r_last st) idx)]) ++ e
+    /\ (e = [] \/ exists c, e = [OSgr c])
+    /\ r_last (render_point s opt rs st idx p cur) = idx /\ r_first (render_point s opt rs st idx p cur) = false.
+Proof.
+  destruct opt.
+  - rewrite render_point_opt. cbv zeta. cbn [r_out r_last r_first]. eexists. split; [reflexivity|].
+    split; [|split; reflexivity]. destruct (fst _); [right; eauto|now left].
+  - rewrite render_point_unopt. cbn [r_out r_last r_first]. eexists. split; [reflexivity|].
+    split; [right; eauto|split; reflexivity].
+Qed.
+
+Definition Sv (s : str) (st : rstate) : Prop :=
+  (exists m, sepe true (r_out st) = Some m)
+  /\ (r_first st = true -> r_out st = [] /\ r_last st = 0 /\ r_exist st = false)
+  /\ (r_first st = false -> r_last st < length s).
+
+Lemma loop_sep s opt rs : forall t act st, ssorted t -> Sv s st ->
+  (r_first st = false -> forall kp, In kp t -> r_last st < fst kp) ->
+  Sv s (render_loop s opt rs (iter_states t act) st).
+Proof.
+  induction t as [|[k p] t IH]; intros act st Hs Hsv Hk; cbn [iter_states render_loop]; [exact Hsv|].
+  destruct (length s <=? k) eqn:E; [exact Hsv|]. apply Nat.leb_gt in E.
+  inversion Hs as [|? ? ? Hkt Hst]; subst.
+  destruct (render_point_shape s opt rs st k p (step act p)) as (e & Eo & He & El & Ef).
+  apply IH; [exact Hst| |].
+  - destruct Hsv as ((m & Hm) & H1 & H2). split; [|split].
+    + rewrite Eo. destruct (r_first st) eqn:Efst.
+      * destruct (H1 eq_refl) as (-> & Hl0 & _). rewrite Hl0. cbn [app andb].
+        destruct k as [|k'].
+        -- change (0 <? 0) with false. cbn [andb app]. unfold str_slice. cbn [is_nil app].
+           destruct He as [->|(c & ->)]; eexists; reflexivity.
+        -- change (0 <? S k') with true. cbn [andb].
+           pose proof (slice_nonnil s 0 (S k') ltac:(lia) ltac:(lia)) as Hne.
+           destruct (str_slice s 0 (S k')) as [|c0 x] eqn:Ex; [congruence|]. cbn [is_nil].
+           destruct rs; destruct He as [->|(c & ->)]; eexists; reflexivity.
+      * cbn [andb app]. assert (Hlt : r_last st < k) by (apply (Hk eq_refl (k, p)); now left).
+        pose proof (slice_nonnil s (r_last st) k Hlt ltac:(lia)) as Hne.
+        destruct (str_slice s (r_last st) k) as [|c0 x] eqn:Ex; [congruence|]. cbn [is_nil].
+        rewrite sepe_app, Hm. destruct He as [->|(c & ->)]; eexists; reflexivity.
+    + rewrite Ef. discriminate.
+    + intros _. now rewrite El.
+  - intros _ kp Hin. rewrite El. now apply Hkt.
+Qed.
+
+Theorem to_str_toks_sep s opt rs re : ssorted (tbl s) -> sep true (to_str_toks s opt rs re).
+Proof.
+  intros Hs. apply sep_sepe. unfold to_str_toks. destruct (is_nil (tbl s) && negb rs).
+  - destruct (base s); cbn; discriminate.
+  - set (o := opt && is_parsable_tbl (tbl s)).
+    assert (H0 : Sv (base s) {| r_out := []; r_last := 0; r_dict := []; r_exist := false; r_first := true |}).
+    { split; [now exists true|]. split; [auto|discriminate]. }
+    pose proof (loop_sep (base s) o rs (tbl s) [] _ Hs H0 ltac:(discriminate)) as ((m & Hm) & H1 & H2).
+    set (st := render_loop _ _ _ _ _) in *. rewrite sepe_app, Hm.
+    destruct (r_first st) eqn:Ef.
+    + destruct (H1 eq_refl) as (Ho & Hl & Hex). rewrite Ho in Hm. inversion Hm; subst m. rewrite Hl, Hex. cbn [skipn andb].
+      destruct rs; cbn [app sepe]; destruct (base s) as [|c x]; cbn [is_nil app sepe]; discriminate.
+    + cbn [andb app]. pose proof (H2 eq_refl) as Hlt.
+      assert (Hne : skipn (r_last st) (base s) <> []).
+      { intros E. pose proof (skipn_length (r_last st) (base s)) as Hl. rewrite E in Hl. cbn in Hl. lia. }
+      destruct (skipn (r_last st) (base s)) as [|c x]; [congruence|]. cbn [is_nil app sepe].
+      destruct (r_exist st && re); discriminate.
+Qed.
+
+(* ====================================================================================== *)
+(* Stability                                                                                 *)
+(* ====================================================================================== *)
+Theorem parse_to_str_canonical s opt rs re nid :
+  ssorted (tbl s) -> no_esc (base s) = true -> adds_wf (tbl s) ->
+  canonical (fst (parse (to_str s opt rs re) nid)).
+Proof.
+  intros Hs He Hwf. unfold to_str.
+  apply parse_canonical; [now apply to_str_toks_ok|now apply to_str_toks_num|now apply to_str_toks_sep].
+Qed.
+
+Theorem simplify_canonical s nid :
+  ssorted (tbl s) -> no_esc (base s) = true -> valid_adds_wf (tbl s) -> canonical (fst (simplify s nid)).
+Proof.
+  intros Hs He Hwf. rewrite simplify_def. apply parse_to_str_canonical; cbn [base tbl]; auto.
+  - now apply drop_invalid_sorted.
+  - now apply drop_invalid_wf.
+Qed.
+
+(* the rendering of a simplified value is a fixed point of parse-then-render *)
+Theorem simplify_fixed_point s n1 n :
+  ssorted (tbl s) -> no_esc (base s) = true -> valid_adds_wf (tbl s) ->
+  let s1 := fst (simplify s n1) in
+  render (fst (parse (render s1) n)) = render s1.
+Proof. intros Hs He Hwf s1. apply canonical_fixed_point. now apply simplify_canonical. Qed.
+
+(* more generally: AnsiString(str(x)) is such a fixed point for every x with well-formed settings *)
+Theorem reparse_fixed_point s nid n :
+  ssorted (tbl s) -> no_esc (base s) = true -> adds_wf (tbl s) ->
+  let c := fst (parse (render s) nid) in
+  render (fst (parse (render c) n)) = render c.
+Proof. intros Hs He Hwf c. apply canonical_fixed_point. now apply parse_to_str_canonical. Qed.
+
+(* ====================================================================================== *)
+(* Every marker of a parse output is one of its settings' objects: markers are parsable     *)
+(* ====================================================================================== *)
+Definition psub (p : point) (U : setting -> Prop) : Prop := forall x, In x (padd p) \/ In x (prem p) -> U x.
+Definition lsub (l : list setting) (U : setting -> Prop) : Prop := forall x, In x l -> U x.
+
+Lemma remove_nth_in {A} (l : list A) : forall i y, In y (remove_nth i l) -> In y l.
+Proof.
+  induction l as [|a l IH]; intros [|i] y; cbn [remove_nth]; auto.
+  - intros H. now right.
+  - intros [->|H]; [now left|right; eauto].
+Qed.
+
+Lemma remove_at_start_sub sel U cur : forall p rd, lsub cur U -> psub p U -> lsub rd U ->
+  psub (fst (remove_at_start sel cur p rd)) U /\ lsub (snd (remove_at_start sel cur p rd)) U.
+Proof.
+  unfold remove_at_start. induction cur as [|x cur IH]; intros p rd Hc Hp Hr; [now split|].
+  cbn [fold_left]. assert (Hx : U x) by (apply Hc; now left).
+  assert (Hc' : lsub cur U) by (intros y Hy; apply Hc; now right).
+  assert (Hr' : lsub (rd ++ [x]) U) by (intros y Hy; apply in_app_or in Hy as [Hy|[<-|[]]]; auto).
+  destruct (selected sel x); [|now apply IH]. destruct (find_ref x (padd p)) as [i|].
+  - apply IH; auto. intros y Hy. cbn [padd prem] in Hy. apply Hp.
+    destruct Hy as [Hy|Hy]; [left; eapply remove_nth_in; eauto|now right].
+  - apply IH; auto. intros y [Hy|Hy]; cbn [padd prem] in Hy; [apply Hp; now left|].
+    apply in_app_or in Hy as [Hy|[<-|[]]]; auto.
+Qed.
+
+Lemma rem_pass_sub U rems rd : lsub rems U -> lsub rd U ->
+  lsub (fst (rem_pass rems rd)) U /\ lsub (snd (rem_pass rems rd)) U.
+Proof.
+  unfold rem_pass. induction rems as [|x rems IH]; intros Hm Hr; [now split|]. cbn [fold_right].
+  destruct (IH (fun y Hy => Hm y (or_intror Hy)) Hr) as [I1 I2].
+  destruct (fold_right _ _ rems) as [keep rd']. cbn [fst snd] in *.
+  destruct (find_ref x rd') as [i|]; cbn [fst snd].
+  - split; auto. intros y Hy. apply I2. eapply remove_nth_in; eauto.
+  - split; auto. intros y [<-|Hy]; auto. apply Hm. now left.
+Qed.
+
+Lemma add_pass_sub sel U adds rd : lsub adds U -> lsub rd U ->
+  lsub (fst (add_pass sel adds rd)) U /\ lsub (snd (add_pass sel adds rd)) U.
+Proof.
+  unfold add_pass. induction adds as [|x adds IH]; intros Ha Hr; [now split|]. cbn [fold_right].
+  destruct (IH (fun y Hy => Ha y (or_intror Hy)) Hr) as [I1 I2].
+  destruct (fold_right _ _ adds) as [keep rd']. cbn [fst snd] in *.
+  assert (Hx : U x) by (apply Ha; now left).
+  destruct (selected sel x); cbn [fst snd]; split; auto.
+  - intros y Hy. apply in_app_or in Hy as [Hy|[<-|[]]]; auto.
+  - intros y [<-|Hy]; auto.
+Qed.
+
+Lemma last_opt_in {A} (l : list A) x : last_opt l = Some x -> In x l.
+Proof.
+  induction l as [|a l IH]; [discriminate|]. cbn [last_opt]. destruct l as [|b l]; [intros H; inversion H; now left|].
+  intros H. right. now apply IH.
+Qed.
+
+Lemma remove_at_end_sub len en U cur p rem' rd : lsub cur U -> psub p U -> lsub rem' U ->
+  psub (remove_at_end len en cur p rem' rd) U.
+Proof.
+  intros Hc Hp Hr. unfold remove_at_end. destruct (negb (Nat.eqb en len) && negb (is_nil rd)).
+  - set (original := firstn (length cur - length (padd p)) cur).
+    assert (Ho : lsub original U) by (intros y Hy; apply Hc; eapply firstn_in; eauto).
+    set (restart := match min_pos rd original with Some f => skipn f original
+                    | None => match last_opt original with Some x => [x] | None => [] end end).
+    assert (Hrs : lsub restart U).
+    { unfold restart. destruct (min_pos rd original) as [f|].
+      - intros y Hy. apply Ho. eapply skipn_in; eauto.
+      - destruct (last_opt original) as [x|] eqn:E; [|intros y []]. intros y [<-|[]]. apply Ho. now apply last_opt_in. }
+    intros y Hy. cbn [padd prem] in Hy. destruct Hy as [Hy|Hy]; apply in_app_or in Hy as [Hy|Hy].
+    + now apply Hrs.
+    + apply Hp. now left.
+    + now apply Hr.
+    + apply filter_In in Hy as [Hy _]. now apply Hrs.
+  - intros y Hy. cbn [padd prem] in Hy. destruct Hy as [Hy|Hy]; [apply Hp; now left|now apply Hr].
+Qed.
+
+Lemma remove_loop_sub U len start en sel : forall states rd,
+  (forall k p cur, In (k, p, cur) states -> psub p U /\ lsub cur U) -> lsub rd U ->
+  forall kp, In kp (remove_loop states len start en sel rd) -> psub (snd kp) U.
+Proof.
+  induction states as [|[[k p] cur] states IH]; intros rd Hst Hr kp Hin; [destruct Hin|].
+  destruct (Hst k p cur (or_introl eq_refl)) as [Hp Hc].
+  assert (Hst' : forall k p cur, In (k, p, cur) states -> psub p U /\ lsub cur U) by (intros; eapply Hst; right; eauto).
+  cbn [remove_loop] in Hin. destruct (k <? start).
+  { destruct Hin as [<-|Hin]; [exact Hp|]. exact (IH rd Hst' Hr kp Hin). }
+  destruct (en <? k).
+  { destruct Hin as [<-|Hin]; [exact Hp|]. apply in_map_iff in Hin as ([[k' p'] cur'] & <- & Hin'). cbn [fst snd].
+    now apply (Hst' k' p' cur'). }
+  destruct (Nat.eqb k start).
+  { destruct (remove_at_start_sub sel U cur p rd Hc Hp Hr) as [H1 H2].
+    destruct (remove_at_start sel cur p rd) as [p' rd']. cbn [fst snd] in *.
+    destruct Hin as [<-|Hin]; [exact H1|]. exact (IH rd' Hst' H2 kp Hin). }
+  destruct (rem_pass_sub U (prem p) rd (fun y Hy => Hp y (or_intror Hy)) Hr) as [H1 H2].
+  destruct (rem_pass (prem p) rd) as [rem' rd1]. cbn [fst snd] in *.
+  destruct (Nat.eqb k en).
+  { destruct Hin as [<-|Hin]; [now apply remove_at_end_sub|]. exact (IH rd1 Hst' H2 kp Hin). }
+  destruct (add_pass_sub sel U (padd p) rd1 (fun y Hy => Hp y (or_introl Hy)) H2) as [H3 H4].
+  destruct (add_pass sel (padd p) rd1) as [add' rd2]. cbn [fst snd] in *.
+  destruct Hin as [<-|Hin]; [|exact (IH rd2 Hst' H4 kp Hin)].
+  intros y [Hy|Hy]; cbn [padd prem snd] in Hy; auto.
+Qed.
+
+Definition marked (t : fmts) (x : setting) : Prop := exists kp, In kp t /\ (In x (padd (snd kp)) \/ In x (prem (snd kp))).
+
+Lemma marked_all_marks t x : marked t x <-> In x (all_marks t).
+Proof.
+  unfold marked, all_marks. rewrite in_flat_map. split; intros (kp & H1 & H2); exists kp; split; auto.
+  - apply in_or_app. tauto.
+  - apply in_app_or in H2. tauto.
+Qed.
+
+Lemma tensure_in k t kp : In kp (tensure k t) -> kp = (k, empty_point) \/ In kp t.
+Proof. unfold tensure. destruct (tmem k t); auto. apply tput_in_inv. Qed.
+
+Theorem remove_core_marks s sel start en x :
+  marked (tbl (remove_core s sel start en)) x -> marked (tbl s) x.
+Proof.
+  intros (kp & Hin & Hx). unfold remove_core in Hin. cbn [tbl] in Hin. unfold cleanup in Hin.
+  apply filter_In in Hin as [Hin _].
+  set (t := tensure en (tensure start (tbl s))) in *.
+  assert (Ht : forall kq, In kq t -> psub (snd kq) (marked (tbl s))).
+  { intros kq Hq. unfold t in Hq. apply tensure_in in Hq as [->|Hq]; [intros y [[]|[]]|].
+    apply tensure_in in Hq as [->|Hq]; [intros y [[]|[]]|]. intros y Hy. now exists kq. }
+  apply (remove_loop_sub (marked (tbl s)) (length (base s)) start en sel (iter_states t []) []) with (kp := kp); auto.
+  - intros k p cur Hs. split.
+    + assert (Hq : In (k, p) t).
+      { rewrite <- (iter_states_proj t []). apply in_map_iff. exists (k, p, cur). split; [reflexivity|exact Hs]. }
+      exact (Ht _ Hq).
+    + intros y Hy. destruct (iter_states_in _ _ _ _ _ y Hs Hy) as [[]|Ha].
+      apply in_all_adds in Ha as (k' & p' & Hq & Hy'). apply (Ht _ Hq). now left.
+  - intros y [].
+Qed.
+
+Lemma tget_in k t p : tget k t = Some p -> In (k, p) t.
+Proof.
+  induction t as [|[k' p'] t IH]; cbn [tget]; [discriminate|].
+  destruct (Nat.eqb k k') eqn:E; [apply Nat.eqb_eq in E; subst; intros H; inversion H; now left|].
+  destruct (k <? k'); [discriminate|]. intros H. right. now apply IH.
+Qed.
+
+Lemma tget_or_empty_sub k t U : (forall kq, In kq t -> psub (snd kq) U) -> psub (tget_or_empty k t) U.
+Proof.
+  intros H. unfold tget_or_empty. destruct (tget k t) as [p|] eqn:E; [|intros y [[]|[]]].
+  exact (H _ (tget_in _ _ _ E)).
+Qed.
+
+Theorem apply_core_marks s new start en x :
+  marked (tbl (apply_core s new start en true)) x -> marked (tbl s) x \/ In x new.
+Proof.
+  intros (kp & Hin & Hx). unfold apply_core in Hin. cbn [tbl] in Hin. cbv zeta in Hin.
+  set (U := fun y => marked (tbl s) y \/ In y new).
+  change (U x).
+  set (t := tensure start (tbl s)) in *.
+  assert (Ht : forall kq, In kq t -> psub (snd kq) U).
+  { intros kq Hq. unfold t in Hq. apply tensure_in in Hq as [->|Hq]; [intros y [[]|[]]|]. intros y Hy. left. now exists kq. }
+  set (p := tget_or_empty start t) in *.
+  assert (Hp : psub p U) by now apply tget_or_empty_sub.
+  set (t1 := tput start (mkP (padd p ++ new) (prem p)) t) in *.
+  assert (Ht1 : forall kq, In kq t1 -> psub (snd kq) U).
+  { intros kq Hq. unfold t1 in Hq. apply tput_in_inv in Hq as [->|Hq]; [|now apply Ht].
+    intros y [Hy|Hy]; cbn [snd padd prem] in Hy.
+    - apply in_app_or in Hy as [Hy|Hy]; [apply Hp; now left|now right].
+    - apply Hp. now right. }
+  set (t3 := tensure en t1) in *.
+  assert (Ht3 : forall kq, In kq t3 -> psub (snd kq) U).
+  { intros kq Hq. unfold t3 in Hq. apply tensure_in in Hq as [->|Hq]; [intros y [[]|[]]|now apply Ht1]. }
+  set (q := tget_or_empty en t3) in *.
+  assert (Hq : psub q U) by now apply tget_or_empty_sub.
+  apply tput_in_inv in Hin as [->|Hin]; [|exact (Ht3 _ Hin x Hx)].
+  cbn [snd padd prem] in Hx. destruct Hx as [Hx|Hx]; [apply Hq; now left|].
+  apply in_app_or in Hx as [Hx|Hx]; [apply Hq; now right|now right].
+Qed.
+
+Lemma remove_fmt_marks s sel st en x : marked (tbl (remove_fmt s sel st en)) x -> marked (tbl s) x.
+Proof. unfold remove_fmt. destruct (range_empty _ _ _); auto. apply remove_core_marks. Qed.
+
+Lemma apply_fmt_marks s new st en x : marked (tbl (apply_fmt s new st en true)) x -> marked (tbl s) x \/ In x new.
+Proof. unfold apply_fmt. destruct (range_empty _ _ _ || is_nil new); auto. apply apply_core_marks. Qed.
+
+Definition MV (t : fmts) : Prop := forall x, marked t x -> parsable (stxt x) = true.
+
+Lemma parse_step_MV s cur key body nid : PInv s cur key nid -> key < length (base s) -> MV (tbl s) ->
+  MV (tbl (fst (fst (parse_step s cur key body nid)))).
+Proof.
+  intros Hinv Hkey Hmv. destruct (pgs_str_ok body) as (texts & Hp). pose proof (pgs_str_texts body texts Hp) as Htx.
+  rewrite (parse_step_unfold _ _ _ _ _ _ Hp). cbv zeta. cbn [fst].
+  intros x Hx. apply apply_fmt_marks in Hx as [Hx|Hx].
+  - apply Hmv. destruct (is_nil (step_rem cur nid texts)); [exact Hx|]. now apply remove_fmt_marks in Hx.
+  - assert (Ht : In (stxt x) (step_app cur nid texts)).
+    { rewrite <- (fresh_texts (step_app cur nid texts) (nid + length texts)). now apply in_map. }
+    assert (HRep : RepT cur (AT s key)).
+    { apply Rep_RepT. destruct Hinv as (_ & _ & _ & Hrep & _). apply Hrep. lia. }
+    destruct (in_to_app cur nid texts (AT s key) ltac:(apply Hinv) Htx HRep _ Ht) as (_ & _ & _ & _ & _ & _ & Hpar).
+    exact Hpar.
+Qed.
+
+Lemma parse_loop_MV text : forall l pos s cur nid,
+  PInv s cur pos nid -> base s = text -> MV (tbl s) ->
+  MV (tbl (fst (fst (parse_fold text (seqs_flat l pos) (s, cur, nid))))).
+Proof.
+  induction l as [|[c|q] l IH]; intros pos s cur nid Hinv Hb Hmv.
+  - exact Hmv.
+  - cbn [seqs_flat]. apply (IH (S pos) s cur nid); auto. eapply PInv_mono; eauto.
+  - cbn [seqs_flat]. rewrite parse_fold_cons. cbn [fst snd].
+    destruct (length text <=? pos) eqn:E; [now apply IH|]. apply Nat.leb_gt in E.
+    pose proof (parse_step_inv s cur pos (cs_body q) nid Hinv ltac:(now rewrite Hb)) as Hst. cbv zeta in Hst.
+    pose proof (parse_step_MV s cur pos (cs_body q) nid Hinv ltac:(now rewrite Hb) Hmv) as Hmv1.
+    destruct (parse_step s cur pos (cs_body q) nid) as [[s1 cur1] nid1]. cbn [fst snd] in Hst, Hmv1.
+    destruct Hst as (Hinv1 & Hn1 & Hb1 & Hlo1).
+    apply (IH pos s1 cur1 nid1 Hinv1); [congruence|exact Hmv1].
+Qed.
+
+(* whatever the input: every start and stop marker of the constructed value is parsable *)
+Theorem parse_marks_parsable w nid : MV (tbl (fst (parse w nid))).
+Proof.
+  rewrite parse_eq. cbv zeta. cbn [fst].
+  apply (parse_loop_MV _ _ 0 _ [] nid (PInv_init _ _) eq_refl). intros x (kp & [] & _).
+Qed.
+
+Lemma drop_invalid_id t : MV t -> drop_invalid t = t.
+Proof.
+  intros H. unfold drop_invalid. rewrite <- (map_id t) at 2. apply map_ext_in. intros [k [pa pr]] Hin. cbn [fst snd padd prem].
+  f_equal. f_equal; apply filter_all; intros x Hx; apply parsable_valid, H; exists (k, mkP pa pr); cbn [snd padd prem]; auto.
+Qed.
+
+Theorem simplify_of_parse w n1 n2 : simplify (fst (parse w n1)) n2 = parse (render (fst (parse w n1))) n2.
+Proof.
+  rewrite simplify_def, drop_invalid_id by apply parse_marks_parsable. now destruct (fst (parse w n1)).
+Qed.
+
+(* simplify twice = simplify once, as far as str() can see *)
+Theorem simplify_idempotent s n1 n2 :
+  ssorted (tbl s) -> no_esc (base s) = true -> valid_adds_wf (tbl s) ->
+  render (fst (simplify (fst (simplify s n1)) n2)) = render (fst (simplify s n1)).
+Proof.
+  intros Hs He Hwf. rewrite (simplify_def s n1) at 1. rewrite simplify_of_parse. rewrite <- simplify_def.
+  now apply simplify_fixed_point.
+Qed.
+
+(* ---------- the stability clauses on concrete values (vm_compute) ---------- *)
+Definition stab_check (s : astr) : bool :=
+  let s1 := fst (simplify s 100) in
+  str_eqb (render (fst (simplify s1 200))) (render s1) && str_eqb (render (fst (parse (render s1) 300))) (render s1).
+Module StabilityExamples.
+Import String.
+Definition S_ (i : nat) (x : string) : setting := mkS i (str_of_string x).
+Definition T_ (x : string) : str := str_of_string x.
+Definition E_ (x : string) : str := ESC :: LBR :: str_of_string x.
+Arguments S_ i%nat x%string.
+Arguments T_ x%string.
+Arguments E_ x%string.
+Definition sv1 := mkA (T_ "ABC") [(0, mkP [S_ 1 "1"; S_ 2 "3"; S_ 3 "38;2;1;2;3"] []); (1, mkP [S_ 4 "1"] [S_ 1 "1"]);
+                                  (2, mkP [] [S_ 4 "1"; S_ 2 "3"]); (3, mkP [] [S_ 3 "38;2;1;2;3"])].
+Definition sv2 := mkA (T_ "ABCD") [(0, mkP [S_ 1 "11"; S_ 2 "1"] []); (1, mkP [] [S_ 1 "11"]); (2, mkP [S_ 3 "4"] []);
+                                   (3, mkP [S_ 5 "21"] [S_ 2 "1"]); (4, mkP [] [S_ 3 "4"; S_ 5 "21"])].
+Definition sv3 := mkA (T_ "ABCD") [(0, mkP [S_ 1 "1;3"; S_ 2 "0"; S_ 3 "01"; S_ 6 "1A"] []); (1, mkP [S_ 4 "38;5;7"] [S_ 1 "1;3"]);
+                                   (2, mkP [S_ 5 "2"] []); (4, mkP [] [S_ 2 "0"; S_ 3 "01"; S_ 4 "38;5;7"; S_ 5 "2"; S_ 6 "1A"])].
+Definition sv4 := mkA (T_ "ABCDE") [(0, mkP [S_ 1 "31"; S_ 2 "1"] []); (1, mkP [S_ 3 "32"] []); (2, mkP [] [S_ 3 "32"]);
+                                    (3, mkP [S_ 4 "22"] []); (5, mkP [] [S_ 1 "31"; S_ 2 "1"; S_ 4 "22"])].
+Definition sv5 := mkA (T_ "ABCDE") [(1, mkP [S_ 1 "51"; S_ 2 "26"; S_ 7 "53"] []); (2, mkP [S_ 3 "52"] [S_ 2 "26"]);
+                                    (3, mkP [] [S_ 1 "51"]); (4, mkP [] [S_ 3 "52"; S_ 7 "53"])].
+Definition sv6 := mkA (T_ "AB") [(0, mkP [S_ 1 "11"; S_ 2 "1"; S_ 3 "38;2;1;2;3"; S_ 4 "3;4"] []); (1, mkP [] [S_ 1 "11"; S_ 2 "1"]);
+                                 (2, mkP [] [S_ 3 "38;2;1;2;3"; S_ 4 "3;4"])].
+Definition sv7 := mkA (T_ "ABC") [(0, mkP [S_ 1 "12"; S_ 2 "10"; S_ 3 "4"] []); (1, mkP [S_ 4 "13"] [S_ 2 "10"]);
+                                  (2, mkP [] [S_ 1 "12"; S_ 4 "13"]); (3, mkP [] [S_ 3 "4"])].
+Definition sv8 := mkA (T_ "ABCD") [(0, mkP [S_ 1 "1"; S_ 2 "3"; S_ 3 "4"; S_ 4 "9"; S_ 5 "31"] []);
+                                   (2, mkP [] [S_ 1 "1"; S_ 2 "3"; S_ 3 "4"; S_ 4 "9"]); (4, mkP [] [S_ 5 "31"])].
+Definition sv9 := mkA (T_ "") [(0, mkP [S_ 1 "1"] [])].
+
+Example stability_examples :
+  forallb stab_check [sv1; sv2; sv3; sv4; sv5; sv6; sv7; sv8; sv9; ex_inv; ex_unstable; ex_o; ex_f; ex_s] = true.
+Proof. vm_compute. reflexivity. Qed.
+
+(* non-vacuity of the hypotheses of simplify_fixed_point / simplify_idempotent: ex_inv (simplify_ex) and
+   ex_unstable (simplify_stable_regression) satisfy them; sv3 has verbatim multi-group, reset, zero-padded and
+   invalid settings *)
+Example stability_hyps_sv3 :
+  ssorted (tbl sv3) /\ no_esc (base sv3) = true /\ valid_adds_wf (tbl sv3) /\ is_valid_tbl (tbl sv3) = false
+  /\ is_parsable_tbl (tbl sv3) = false.
+Proof.
+  split; [apply ssorted_check; reflexivity|]. split; [reflexivity|]. split; [|split; reflexivity].
+  intros x H Hv. cbn in H.
+  repeat (destruct H as [<-|H]; [first [reflexivity | (exfalso; vm_compute in Hv; discriminate)]|]). destruct H.
+Qed.
+
+(* parsing an arbitrary string is NOT in general a fixed point of render-then-parse (two sequences at one
+   position: ESC[1;3;38;2;1;2;3m A ESC[22m ESC[1m B ESC[22;23m C); C03 claims it for simplified values only,
+   and the Python code behaves the same *)
+Example reparse_of_arbitrary_input_differs :
+  let w := E_ "1;3;38;2;1;2;3m" ++ T_ "A" ++ E_ "22m" ++ E_ "1m" ++ T_ "B" ++ E_ "22;23m" ++ T_ "C" in
+  let c := fst (parse w 10) in
+  render c = E_ "1;3;38;2;1;2;3m" ++ T_ "AB" ++ E_ "23;22m" ++ T_ "C" ++ E_ "m"
+  /\ render (fst (parse (render c) 50)) = E_ "1;3;38;2;1;2;3m" ++ T_ "AB" ++ E_ "22;23m" ++ T_ "C" ++ E_ "m".
+Proof. split; vm_compute; reflexivity. Qed.
+End StabilityExamples.
+
+
+
+(* non-vacuity: a canonical value, and a token list with at most one sequence per position *)
+Example canonical_ex : canonical (fst (simplify ex_inv 10)) /\ tbl (fst (simplify ex_inv 10)) <> [].
+Proof.
+  split; [|vm_compute; discriminate]. destruct simplify_ex as (H1 & H2 & H3 & _). now apply simplify_canonical.
+Qed.
+Example parse_canonical_ex :
+  let l := [OSgr [49; 59; 51]%N; OText [65; 66]%N; OSgr []; OText [67]%N; OSgr [52]%N] in
+  Forall tok_ok l /\ Forall tok_num l /\ sep true l /\ ~ sep true (OSgr [49]%N :: l).
+Proof. cbv zeta. split; [repeat constructor|]. split; [repeat constructor|]. split; [cbn; auto|]. cbn. intros [_ [H _]]. discriminate. Qed.
+
+(* ====================================================================================== *)
+(* 5. C03, assembled                                                                         *)
+(* ====================================================================================== *)
+(* AnsiString(str(s)): same text, same effective style on every character (exactly), a well-formed value
+   with parsable settings only, whose own rendering is a fixed point *)
+Theorem C03_roundtrip s nid :
+  ssorted (tbl s) -> no_esc (base s) = true -> adds_wf (tbl s) ->
+  let s' := fst (parse (render s) nid) in
+  base s' = base s
+  /\ (forall i, i < length (base s) -> teq (style s' i) (style s i))
+  /\ rm_wf s' /\ is_parsable_tbl (tbl s') = true /\ is_valid_tbl (tbl s') = true
+  /\ (forall n, render (fst (parse (render s') n)) = render s').
+Proof.
+  intros Hs He Hwf s'. destruct (roundtrip_to_str_exact s true false true nid Hs He Hwf) as [B S].
+  split; [exact B|]. split; [exact S|]. split; [apply parse_wf|].
+  split; [apply parse_parsable|]. split; [apply parse_parsable|].
+  intros n. now apply reparse_fixed_point.
+Qed.
+
+(* simplify(): text and effective style (of the valid settings) preserved exactly; afterwards the formatting is
+   parsable and valid and the value is well formed; a second simplify() leaves str() unchanged; str() of the
+   simplified value is a fixed point of parse-then-render *)
+Theorem C03_simplify s n1 :
+  ssorted (tbl s) -> no_esc (base s) = true -> valid_adds_wf (tbl s) ->
+  let s1 := fst (simplify s n1) in
+  base s1 = base s
+  /\ (forall i, i < length (base s) -> teq (style s1 i) (style_of (map stxt (active_at (drop_invalid (tbl s)) i))))
+  /\ (coh_marks (tbl s) -> forall i, i < length (base s) -> teq (style s1 i) (style_valid s i))
+  /\ is_parsable_tbl (tbl s1) = true /\ is_valid_tbl (tbl s1) = true /\ rm_wf s1
+  /\ (forall n2, render (fst (simplify s1 n2)) = render s1)
+  /\ (forall n, render (fst (parse (render s1) n)) = render s1).
+Proof.
+  intros Hs He Hwf s1.
+  destruct (simplify_spec s n1 Hs He Hwf) as (B & _ & _ & P & V & W & _).
+  destruct (simplify_spec_exact s n1 Hs He Hwf) as (S1 & S2).
+  split; [exact B|]. split; [exact S1|]. split; [exact S2|]. split; [exact P|]. split; [exact V|]. split; [exact W|].
+  split; [intros n2; now apply simplify_idempotent|intros n; now apply simplify_fixed_point].
+Qed.
+
 (* ==== FOOTER ==== *)
 Print Assumptions tokenize_bytes.
 Print Assumptions tk_run_toks_of.
@@ -714,3 +2624,17 @@ Print Assumptions parse_parsable.
 Print Assumptions drop_invalid_active.
 Print Assumptions simplify_spec.
 Print Assumptions simplify_spec_exact.
+Print Assumptions render_prender.
+Print Assumptions canonical_fixed_point.
+Print Assumptions parse_canonical.
+Print Assumptions to_str_toks_sep.
+Print Assumptions simplify_canonical.
+Print Assumptions simplify_fixed_point.
+Print Assumptions reparse_fixed_point.
+Print Assumptions remove_core_marks.
+Print Assumptions apply_core_marks.
+Print Assumptions parse_marks_parsable.
+Print Assumptions simplify_of_parse.
+Print Assumptions simplify_idempotent.
+Print Assumptions C03_roundtrip.
+Print Assumptions C03_simplify.
